@@ -12,2097 +12,1839 @@ Definition show_fres (r : fres) : string :=
   end.
 Definition check (rs : list rune) : string := digest (show_fres (format_res rs)).
 Definition full (rs : list rune) : string := show_fres (format_res rs).
-Eval vm_compute in ("<<<M4248>>>" ++ check (runes_of_ascii "packet	Logon
-
-    { 
-repeat 
-string a1 `crlf
-line`,	@lengthOf(	Pad 
-)
-    match Pad
-
-    as u8x
-{ 4294967296 
-      //
-  	// " ++ [128512]%N ++ runes_of_ascii " emoji
-  :	// `tick` ""quote"" 'q'
-i8i8, 
+Eval vm_compute in ("<<<M4245>>>" ++ check (runes_of_ascii "options {
+    ArrayPrefixLenType = u16;
+    FixedStringPadFromLeft = true;
+    JavaPackage = ""com.example.msg"";
+    GoPackage = ""msg"";
+    GoModule = ""example.com/msg"";
 }
 
-,
-asx
-    a1	, 
-// a // b
-    	// @lengthOf(
-    @lengthOf(
-body	) 	 //x
-  msg_type int ,
-tag	`line1
-line2`
-
-    ,
-
-repeat
-// packet A { u8 x, }
-
-// packet A { u8 x, }
-  	Z9_
-
-{
-    u16 packetx
-	@calculatedFrom( ""it's"" 
-) , }  ,@lengthOf(  
-  // " ++ [128512]%N ++ runes_of_ascii " emoji
-  //	t
-
-Logon  )  // " ++ [128512]%N ++ runes_of_ascii " emoji
-		@rightPad (  )
-
-    @calculatedFrom(  """ ++ [233]%N ++ runes_of_ascii "t" ++ [233]%N ++ runes_of_ascii """
-	)repeat roots
-
-u128  // `tick` ""quote"" 'q'
-,
-    @calculatedFrom(  ""{,}"")
-chars
-
-{ match// " ++ [128512]%N ++ runes_of_ascii " emoji
-
-  roots
-as
-Foo
-
-{
-
-10
-:
-	trueish 
-        // trailing space 
-  // @lengthOf(
-	  , 
-}  ,  }
-    , i8i8  , @calculatedFrom(	""x y""
-	)
-@calculatedFrom(
-
-    ""a\""b"" )  repeat	Z9_
-    {f32a msg_type
-	,
-
-    repeat
-o
-{ 
-    // " ++ [128512]%N ++ runes_of_ascii " emoji
-	// @lengthOf(
-
-	zchar[	0]
-
-    charz
-	@calculatedFrom(""CRC32""
-)
-,},}
-	, 
-}
-root
-packet  BodyLength
-{
-calculatedFrom
-    { char[] x@calculatedFrom(
-""\n"" )  , // @lengthOf(
-
-	_x@calculatedFrom(
-""`tick`"" 
-)
-
-,
-
-repeat u128
-, 
-float Packet  `" ++ [28040; 24687; 31867; 22411]%N ++ runes_of_ascii "`  ,	},
-repeat Foo
-    {	uint64  a1 
-	    // `tick` ""quote"" 'q'
-	  ,}, /// triple
-  repeat
-char[ 
-42
-]  matchKey`it's`
-
-    ,	lengthOf 
-{ 	 // " ++ [27880; 37322]%N ++ runes_of_ascii "
-
-u128
-	trueish `// not a comment`
-	,
-
-    match
-
-chars	as
-
-    MetaDataX { 00	: 
-x_y_z
-
-1: 
-trueish , [
-0123456789
-]:  calculatedFrom
-,[
-	""CRC32"",  ""\" ++ [233]%N ++ runes_of_ascii """
-	,	""// no comment""  ,
-    ""it's"" ,""packet"" ,  007] :
-
-Pad, 
-},
-}	/// triple
-
-,repeat
-	char[]Logon  // `tick` ""quote"" 'q'
-		,
-@leftPad
-('0' 	 //x
-    )
-
-    f32 
-Pad	@calculatedFrom(
-    ""CRC32"" 
-)  , 
-@lengthOf(  BodyLength	)
-options1
-
-@calculatedFrom(
-
-    ""`tick`"")
-
-    ,
-    A{
-	    // " ++ [27880; 37322]%N ++ runes_of_ascii "
-
-//	t
-	uint8
-
-    charz`u8 x,` 
-,falsey
-
-x `line1
-line2`
-	, repeat
-int8	Packet, zchar[1 ]float ,
-
-    }
-	,  char[65535]
-
-    matchKey
-
-@calculatedFrom(//
-  ""x y""
-) // trailing space 
-	, @lengthOf(o  //x
-)match
-chars	as
-    As
-
-{
-1 :
-
-    f32a	,
-	}
-
-,
-}packet 
-//	t
-  // packet A { u8 x, }
-  int {  @calculatedFrom(// trailing space 
-    	""// no comment""
-
-) @rightPad  ()  @calculatedFrom( """ ++ [233]%N ++ runes_of_ascii "t" ++ [233]%N ++ runes_of_ascii """  )
-    roots _x 
-  /// triple
-	// trailing space 
-  `say ""hi""` ,// `tick` ""quote"" 'q'
-    }
-
-    options
-{
-	o
-	=
-
-    ""{,}""	Pad =
-	255  ;
-
-} // " ++ [27880; 37322]%N ++ runes_of_ascii "
-")).
-Eval vm_compute in ("<<<M3978>>>" ++ check (runes_of_ascii "packet float {
-    @lengthOf(matchKey)
-    int64 options1 @calculatedFrom(""{,}"") `it's`,
-    repeat i32 msg_type `a\`,
-    options1 @calculatedFrom(""it's"") `// not a comment`,
-    @lengthOf(roots)
-    u8 repeatCount `say ""hi""`,
-    int16 len,
-    char[] chars @lengthOf(repeatCount),
-    @calculatedFrom(""{,}"")
-    match body as i64_ {
-        ""x y"" : pack,
-    },
-    A {
-        i8i8 @calculatedFrom(""a	b""),
-    },
-    @leftPad('\x00')
-    /// triple
-    metadata {
-        repeat Foo {
-            Z9_ trueish,
-        },
-    },
-    @calculatedFrom(""" ++ [233]%N ++ runes_of_ascii "t" ++ [233]%N ++ runes_of_ascii """)
-    @lengthOf(lengthOf)
-    @rightPad('\x00')
-    repeat char[255] string_ `a\`,
+MetaData Meta {
+    u32 SeqNum `sequence number`,
+    char[8] Symbol `symbol`,
+    zchar[5] ZSym `z symbol`,
+    string Note,
+    Symbol AltSymbol `alias of symbol`,
+    f64 Price,
 }
 
-MetaData trueish {
-    o T,
-    char[1] BodyLength `{ , }`,
+packet Inner {
+    u8 a,
+    i16 b,
+    string c,
+}
+
+packet Inner2 {
+    u8 a2,
+    char[3] c2,
 }
 
 packet Logon {
-    @calculatedFrom(""a\\"")
-    // `tick` ""quote"" 'q'
-    match roots as As {
-        255 : stringy,
-        [10, """", """ ++ [233]%N ++ runes_of_ascii "t" ++ [233]%N ++ runes_of_ascii """, ""a\""b"", ""\" ++ [233]%N ++ runes_of_ascii """] : _x,
-    },
+    u8 x,
+    string user,
+    repeat u16 codes,
 }
 
-packet i64_ {
-    @tag(007)
-    float32 metadata `two words`,
-    match Header as matchKey {
-        ""`tick`"" : Pad,
-        [
-            65535, 10, ""a\""b"", ""a	b"", ""1"",
-            ""a\""b"", ""abc"", ""`tick`""
-        ] : rootA,
-        [255, ""a\""b""] : body,
-        // `tick` ""quote"" 'q'
-        ""\n"" : stringy,
-        [
-            0, 65535, 3, 0, 42,
-            ""\" ++ [233]%N ++ runes_of_ascii """, ""\" ++ [233]%N ++ runes_of_ascii """, ""1""
-        ] : Z9_,
-        // a // b
-        // @lengthOf(
-        ""a\""b"" : string_,
-    },
-    len MetaDataX,
-    u @lengthOf(calculatedFrom) `a\`,
-    Foo {
-        match crc as asx {
-            ""1"" : leftPad,
-            """ ++ [128512]%N ++ runes_of_ascii """ : leftPad,
-            [""{,}""] : string_,
-            ""CRC32"" : crc,
-            42 : u,
+packet Logout {
+    u16 reason,
+}
+
+packet Empty {
+}
+
+root packet Msg {
+    u8 su8,
+    uint8 luint8,
+    u16 su16,
+    uint16 luint16,
+    u32 su32,
+    uint32 luint32,
+    u64 su64,
+    uint64 luint64,
+    i8 si8,
+    int8 lint8,
+    i16 si16,
+    int16 lint16,
+    i32 si32,
+    int32 lint32,
+    i64 si64,
+    int64 lint64,
+    f32 sf32,
+    float32 lfloat32,
+    f64 sf64,
+    float64 lfloat64,
+    char[6] fsplain,
+    @leftPad('0')
+    char[4] fs0,
+    @rightPad('0')
+    char[5] fs1,
+    @leftPad(' ')
+    char[6] fs2,
+    @rightPad(' ')
+    char[7] fs3,
+    @leftPad('\x00')
+    char[8] fs4,
+    @rightPad('\x00')
+    char[9] fs5,
+    @leftPad()
+    char[10] fs6,
+    @rightPad()
+    char[11] fs7,
+    zchar[7] fz,
+    @leftPad('0')
+    zchar[3] fzl0,
+    string s1 `doc`,
+    char[] s2,
+    Inner,
+    Sub {
+        u8 q,
+        string w,
+        Deep {
+            u16 z,
+            repeat i32 zs,
         },
-        match asx as u {
-            [4294967296, 1] : zchar,
-            //x
-        },
-        string body,
-        // " ++ [128512]%N ++ runes_of_ascii " emoji
-        lengthOf asx `two words`,
     },
-    charz @calculatedFrom(""abc"") `{ , }`,
-    char[0123456789] o @lengthOf(packetx),
+    repeat u8 ru8,
+    repeat u16 ru16,
+    repeat u32 ru32,
+    repeat u64 ru64,
+    repeat i8 ri8,
+    repeat i16 ri16,
+    repeat i32 ri32,
+    repeat i64 ri64,
+    repeat f32 rf32,
+    repeat f64 rf64,
+    repeat string rstr,
+    repeat char[] rstr2,
+    repeat char[3] rfs,
+    repeat zchar[3] rfz,
+    repeat Inner2,
+    repeat Grp {
+        u8 k,
+        char[2] v,
+    },
+    SeqNum,
+    SeqNum seq2,
+    repeat SeqNum seqs,
+    Symbol,
+    AltSymbol alt,
+    ZSym,
+    Note,
+    repeat Symbol syms,
+    Price px,
+    u16 MsgType,
+    u32 BodyLen @lengthOf(Body),
+    match MsgType as Body {
+        1 : Logon,
+        [2, 3] : Logout,
+        7 : Logon,
+        9 : Empty,
+    },
+    u32 Checksum @calculatedFrom(""CRC32""),
 }")).
-Eval vm_compute in ("<<<M3919>>>" ++ check (runes_of_ascii "MetaData
-    falsey  {char[]
-	f32a
-`" ++ [28040; 24687; 31867; 22411]%N ++ runes_of_ascii "`
-    , u8x len  
-  /// triple
-	// " ++ [128512]%N ++ runes_of_ascii " emoji
-`" ++ [233]%N ++ runes_of_ascii "`
-    ,
-char[]  uint8x 
-,
-
-f32
-trueish
-	,
-
-    char[ 
-10
-
-]  len`two words`,
-rootA
-	int,
-    }	root
-packet	A 
-{
-	Z9_,
-repeat  MetaDataX
-`it's`
-	,@tag(
-007
-)repeat
-
-    options1
-A//	t
-  ,
-repeat x
-
-`line1
-line2`
-	, 
-MetaDataX  
-      /// triple
-    @lengthOf(options1 ) `say ""hi""`
-
-    ,  }
-// trailing space 
-      // " ++ [27880; 37322]%N ++ runes_of_ascii "
-	  root
-    packet  rootA{	@tag(	255 )	char[
-    10
-]Foo @lengthOf(
-    metadata )
-`` 
-  //
-    // " ++ [128512]%N ++ runes_of_ascii " emoji
-	  ,  @leftPad(
-
-    '\x00'
-) 
-msg_type {
-	//x
-    // a // b
-	  float32 	 // packet A { u8 x, }
-    Pad 
-,	repeat	uint32 Logon  ,}  , @leftPad(
-    )stringy
-
-@calculatedFrom(  """ ++ [128512]%N ++ runes_of_ascii """
-
-)  `" ++ [28040; 24687; 31867; 22411]%N ++ runes_of_ascii "`
-,
-	@tag(
-
-    4294967296
-)
-	@tag(	4294967296 
-)
-@lengthOf( 	 // trailing space 
-i8i8
-    )
-
-BodyLength
-{ 
-zchar[
-
-    42
-]
-
-u128	,crc
-{ char[255 ]
-Z9_ 
-@lengthOf( int
-) 
-    // packet A { u8 x, }
-
-// " ++ [128512]%N ++ runes_of_ascii " emoji
-      ,},
-
-    },
-    @tag( //x
-
-  10
-
-) zchar[
-
-    3] //	t
-      stringy @calculatedFrom(""\n"" )  // " ++ [27880; 37322]%N ++ runes_of_ascii "
-	,
-a1	calculatedFrom, } packet	// packet A { u8 x, }
-	u8x  {
-	x_y_z
-@lengthOf(
-lengthOf )	`crlf
-line`	,
-
-match  uint8x  as repeatCount {  [  ""a\""b"" ,  ""// no comment"" ]
-
-    : 
-Header[ ""a\\"" ,  // " ++ [27880; 37322]%N ++ runes_of_ascii "
-  	4294967296] :
-	roots
-    // " ++ [128512]%N ++ runes_of_ascii " emoji
-  // " ++ [128512]%N ++ runes_of_ascii " emoji
-    ,
-    // " ++ [128512]%N ++ runes_of_ascii " emoji
-
-  // @lengthOf(
-      42:
-rootA
-	,
-	[  1
-    ,
-	""""	/// triple
-  ,
-
-""`tick`""
-,""a	b""
-
-    ]:
-
-    tag 
-, ""1""	: u8x 	 // a // b
-
-  ,
-	}
-    ,
-f32a
-`a\` 
-//x
-	  ,
-@lengthOf( u8x
-	)
-
-    pack	asx ,
-uint64
-
-    leftPad
-,	repeat
-    char[0 
-] Pad ,}
-
-")).
-Eval vm_compute in ("<<<M467>>>" ++ check (runes_of_ascii "options
-{ metadata = char[
-4294967296
-    ] ;}  packet f32a
-{
-    match Z9_ as repeatCount
-    { 3 : crc
-,""{,}"" :pack , }, char[]
-calculatedFrom
-    @lengthOf( // @lengthOf(
-MetaDataX	)
-, @calculatedFrom( ""`tick`""
-    )// " ++ [128512]%N ++ runes_of_ascii " emoji
-x_y_z
-    // " ++ [27880; 37322]%N ++ runes_of_ascii "
-    , i8 leftPad ,  i8 uint8x @calculatedFrom(
-""packet"" ) // trailing space 
-`// not a comment`,
-@calculatedFrom(""""  ) @tag( 007)	char[ 10
-    ] T
-    @calculatedFrom(
-"""" //
-) ,u8x {zchar
-    @lengthOf( // packet A { u8 x, }
-u )
-    `{ , }`
-    // c
-    , },
-    float`say ""hi""`
-    ,i64 packetx,@lengthOf(BodyLength ) string  calculatedFrom , } packet
-MetaDataX // " ++ [27880; 37322]%N ++ runes_of_ascii "
-{ @calculatedFrom( ""{,}"" )
-match/// triple
-metadata as //
-_x
-    { ""1""	: // c
-uint8x  ,""{,}"" :
-falsey } ,} packet // " ++ [27880; 37322]%N ++ runes_of_ascii "
-Logon {  o @lengthOf( i8i8 )  , @rightPad ( '0'
-)
-    int64
-msg_type , char calculatedFrom
-, @tag( 255 )i8i8  @calculatedFrom( ""x y"" )
-    ,i8i8 // @lengthOf(
-@calculatedFrom( ""\" ++ [233]%N ++ runes_of_ascii """
-    )	, @tag( 0123456789
-    ) lengthOf ,@lengthOf( // `tick` ""quote"" 'q'
-o ) @tag(
-10 )
-    match options1 as u{ ""1"" :
-Pad  , // c
-""\" ++ [233]%N ++ runes_of_ascii """:metadata , // @lengthOf(
-} , @tag( // " ++ [128512]%N ++ runes_of_ascii " emoji
-1) @tag(
-65535 ) @lengthOf( Packet ) repeat T , @tag( 4294967296 )
-match x_y_z as uint8x {
-""{,}"":uint8x
-    7 : metadata, 7: i64_ [""" ++ [233]%N ++ runes_of_ascii "t" ++ [233]%N ++ runes_of_ascii """ ,""CRC32"" , // trailing space 
-""packet"" , 00
-    ,65535 , ""x y""	, // " ++ [27880; 37322]%N ++ runes_of_ascii "
-""packet"" //x
-]	:metadata , // packet A { u8 x, }
-""packet"" :
-    uint8x ,	} , repeat
-    x ,	}")).
-Eval vm_compute in ("<<<M4381>>>" ++ check (runes_of_ascii "// c
-
-	packet
-options1 {
-roots 
-    // " ++ [128512]%N ++ runes_of_ascii " emoji
-  @lengthOf( 
-zchar  ) ,
-
-@calculatedFrom(  """ ++ [128512]%N ++ runes_of_ascii """
-)
-    uint64  //
-matchKey
-,@tag(
-42
-    )  i64
-        // trailing space 
-Logon	@lengthOf(
-    i64_
-) 	 // `tick` ""quote"" 'q'
-  `doc` //x
-    , @calculatedFrom( 
-""a\""b""	) 
-A
-,
-    @calculatedFrom(
-	""it's""
-) repeat 
-Pad`` , @tag(7
-	)zchar[00
-    ]trueish `" ++ [233]%N ++ runes_of_ascii "` ,repeat options1
-{ repeatCount  {
-    Header
-
-,
-char[
-
-// " ++ [128512]%N ++ runes_of_ascii " emoji
-  // packet A { u8 x, }
-7  ] 
-Logon
-`a\` 
-, /// triple
-  }
-	, }	, 
-char[ 
-1
-
-]int
-
-`doc`  ,  // a // b
-  @calculatedFrom(  """" 
-)@calculatedFrom(
-
-""a	b"" ) @lengthOf(
-	packetx
-)
-
-    msg_type	// trailing space 
-    {	string
-calculatedFrom
-`{ , }` 
-    // `tick` ""quote"" 'q'
-	,
-zchar @calculatedFrom( """ ++ [28040; 24687]%N ++ runes_of_ascii """ 
-)  ,
-    uint8 
-    // " ++ [128512]%N ++ runes_of_ascii " emoji
-	// trailing space 
-o
-
-    `doc` // " ++ [128512]%N ++ runes_of_ascii " emoji
-	,  f32a ,  } ,  //x
-    } MetaData
-Z9_
-
-    {
-char 
-A//	t
-      , }
-packet 	 // trailing space 
-    options1
-{
-msg_type 
-{
-
-    chars
-    ,
-    zchar[ 3
-
-    ]crc
-
-    `doc`,
-    },@lengthOf( crc 
-)  @tag(10
-)@lengthOf( 
-asx 
-)  zchar[10 ]
-Header @calculatedFrom(
-
-""a\\""
-    )
-`u8 x,` , } packet
-    int
-{ 
-string
-
-x_y_z ,  @calculatedFrom(
-""\" ++ [233]%N ++ runes_of_ascii """ )
-
-    match
-
-    pack as
-roots {65535 : options1
-
-    ,	// @lengthOf(
-		} ,
-
-    } ")).
-Eval vm_compute in ("<<<M900>>>" ++ check (runes_of_ascii "options{ x_y_z
-=	""" ++ [128512]%N ++ runes_of_ascii """ ;
-BodyLength
-= 0 a1=""a\\"" ;trueish =
-    ""{,}"" ;	} packet	crc { @calculatedFrom( ""CRC32""  ) char[]
-    u8x @lengthOf( lengthOf )// " ++ [27880; 37322]%N ++ runes_of_ascii "
-`line1
-line2` ,
-Z9_ int, repeat
-    float
-    // a // b
-    {char[ 00	]
-i64_  `` , // c
+Eval vm_compute in ("<<<M3771>>>" ++ check (runes_of_ascii "MetaData float {
+    lengthOf u128 `tab	here`,
+    u x,
+    metadata crc `line1
+    line2`,
 }
-, body
-@lengthOf( stringy) // packet A { u8 x, }
-`// not a comment`
-    ,	} MetaData
-u128 { char// " ++ [128512]%N ++ runes_of_ascii " emoji
-charz , float64
-msg_type	`tab	here`
-    ,Logon
-stringy `// not a comment` ,	u64 lengthOf ,chars
-u8x ,
-    string_ crc , } root packet
-zchar { @calculatedFrom(""" ++ [28040; 24687]%N ++ runes_of_ascii """ ) @tag(
-10
-)float32 len
-    , } packet calculatedFrom{	repeat
-    // " ++ [128512]%N ++ runes_of_ascii " emoji
-    int8 zchar, @lengthOf(
-    asx ) lengthOf
-    @lengthOf(
-u ) ,	Header
-@lengthOf( rootA )
-`it's`  ,@tag( 65535 )  match u8x as
-Header { """ ++ [233]%N ++ runes_of_ascii "t" ++ [233]%N ++ runes_of_ascii """
-    :matchKey """ ++ [28040; 24687]%N ++ runes_of_ascii """ :x_y_z ,
-    0 : trueish, [ """" /// triple
-, """ ++ [128512]%N ++ runes_of_ascii """ ,  """ ++ [28040; 24687]%N ++ runes_of_ascii """ , 3 ,
-    7// " ++ [128512]%N ++ runes_of_ascii " emoji
-, ""`tick`"" ,""""
-]
-: _x },
+
+root packet trueish {
+    @leftPad('0')
+    repeat zchar[10] lengthOf `u8 x,`,
+    @leftPad('\x00')
+    zchar[255] tag,
+    @leftPad()
+    u128 trueish,
+    chars @lengthOf(i64_) `it's`,
+    @tag(10)
+    zchar[007] asx,
+    char[1] zchar,
+    // `tick` ""quote"" 'q'
+    // trailing space 
+    @tag(7)
+    @calculatedFrom(""packet"")
+    match f32a as uint8x {
+        00 : Header,
+        007 : charz,
+        [255, """ ++ [233]%N ++ runes_of_ascii "t" ++ [233]%N ++ runes_of_ascii """] : rootA,
+        // `tick` ""quote"" 'q'
+        ""it's"" : lengthOf,
+        ""x y"" : pack,
+        """ ++ [28040; 24687]%N ++ runes_of_ascii """ : _x,
+    },
+    repeat Header {
+        char[7] i8i8,
+        char msg_type @lengthOf(pack) `line1
+        line2`,
+        // packet A { u8 x, }
+        // a // b
+        uint8 crc @lengthOf(zchar) `line1
+        line2`,
+    },
+}
+
+packet Foo {
+}
+
+packet Foo {
+    zchar[0123456789] packetx @calculatedFrom(""packet"") `doc`,
+    zchar @calculatedFrom(""\n"") `
+    `,
+    @leftPad('\x00')
+    @tag(65535)
+    char[0] metadata @calculatedFrom(""a\""b""),
+    repeat lengthOf {
+        lengthOf `" ++ [233]%N ++ runes_of_ascii "`,
+    },
+    As,
+}
+
+packet BodyLength {
     //x
-    @leftPad(
-' ' ) string_ falsey	`say ""hi""` // " ++ [27880; 37322]%N ++ runes_of_ascii "
-, @leftPad (
-' ') @rightPad  (
-'0' )
-    @leftPad( )
-match	roots as
-a1{ ""packet"" : T }
-, @calculatedFrom(
-    ""`tick`""
-    // " ++ [27880; 37322]%N ++ runes_of_ascii "
-    ) @calculatedFrom( ""`tick`"" )
-@calculatedFrom(// a // b
-""\" ++ [233]%N ++ runes_of_ascii """)
-    // a // b
-    zchar[0]
-    A ,
-// " ++ [27880; 37322]%N ++ runes_of_ascii "
+    @calculatedFrom(""a\""b"")
+    @lengthOf(x)
+    @tag(00)
+    Packet zchar ``,
+    @tag(0123456789)
+    repeat char[255] x `it's`,// a // b
+    u {
+        match BodyLength as tag {
+            3 : matchKey,
+        },
+    },
+    @tag(0123456789)
+    // " ++ [128512]%N ++ runes_of_ascii " emoji
+    char asx `line1
+    line2`,
+    @lengthOf(chars)
+    @calculatedFrom(""a	b"")
+    f64 len,
+    match int as BodyLength {
+        1 : Header,
+        [0] : tag,
+        """ ++ [28040; 24687]%N ++ runes_of_ascii """ : asx,
+    },
+    @leftPad(' ')
+    metadata `crlf
+    line`,
+    // `tick` ""quote"" 'q'
+    // trailing space 
+    len @lengthOf(metadata),
+    zchar[65535] A @lengthOf(trueish),
+    @leftPad('0')
+    repeatCount Z9_ `" ++ [233]%N ++ runes_of_ascii "`,
+}")).
+Eval vm_compute in ("<<<M96>>>" ++ check (runes_of_ascii "root packet Logon {
+    zchar[ 65535
+]
+uint8x ,@leftPad ()repeat f32
+    Packet , @leftPad ( ' '
+//x
+//	t
+) match i8i8 as  body// a // b
+{ 65535 : MetaDataX ,
+    007
+    : Packet
+}
+,  @calculatedFrom(""packet"")uint8x ,Foo@lengthOf( asx
+    //	t
+    )
+, i64 int , //
+@leftPad ( ' ' ) repeat rootA {
+int32 zchar
+,match stringy  as MetaDataX
+    { [ """ ++ [28040; 24687]%N ++ runes_of_ascii """  , 10 ,42 , ""a\""b"" ,	42 ,7]: msg_type ,[
+    42 ]	:stringy , ""a\\"" :
+Header  255 : calculatedFrom
+    //	t
+    ,
+// a // b
+/// triple
+[ 007// " ++ [27880; 37322]%N ++ runes_of_ascii "
+]
+    :
+/// triple
+//x
+MetaDataX , ""a\""b""
+    //	t
+    ://
+stringy // " ++ [128512]%N ++ runes_of_ascii " emoji
+, } , char[ 007  ] int @lengthOf(
+    o
+    )`" ++ [233]%N ++ runes_of_ascii "` // `tick` ""quote"" 'q'
+,
+// trailing space 
+//x
+}	, @leftPad (
 //
-zchar[ //x
-0123456789 ]x ,
+// @lengthOf(
+)@lengthOf(
+    metadata )match
+asx
+as leftPad { ""x y""
+:
+matchKey // packet A { u8 x, }
+} // " ++ [27880; 37322]%N ++ runes_of_ascii "
+,
+    repeat  leftPad `say ""hi""` ,char[//	t
+65535// c
+] // a // b
+Packet , } root packet // a // b
+x_y_z { match uint8x as As
+    { [0123456789 ] : T
+    65535
+    :	x_y_z ""\n""
+    //
+    : u,
+    4294967296 :  Packet	[ 65535  ]: T ,
+    255 : uint8x },int32 Packet  `tab	here` , @calculatedFrom( """"
+) @calculatedFrom(
+    ""a\\"" ) u64 repeatCount
+    @calculatedFrom( """" ) , Header
+zchar
+`doc` ,
+match
+_x as	metadata // " ++ [128512]%N ++ runes_of_ascii " emoji
+{ [ 255 ,""1""	] : Logon [
+""" ++ [233]%N ++ runes_of_ascii "t" ++ [233]%N ++ runes_of_ascii """ ,00, 65535
+    ,	7 , 42	, 00	]
+:
+packetx , 4294967296 : stringy
+    //	t
+    ,}, char[00
+    ] tag `doc` ,@lengthOf(
+int )
+string u
+    ,  @tag( 007 ) int16 stringy , float64
+    crc, @calculatedFrom( ""x y""  ) repeat u16 f32a ,}options  {	u128= ""CRC32"" options1 = // packet A { u8 x, }
+false u8x= ""`tick`"";}")).
+Eval vm_compute in ("<<<M606>>>" ++ check (runes_of_ascii "packet i8i8 { @leftPad
+( ) u body `
+`
+    , repeat char[] Z9_  ,	repeat char[1	]	int ,
+roots {  _x
+// a // b
+//
+@calculatedFrom(""\n"" ) ,
+int //x
+{ float
+    @lengthOf(packetx )  ,} ,	int8 falsey
+`a\`, uint16  x_y_z@lengthOf(u128 )
+`two words`,} , @tag( 007 ) matchKey
+{ _x
+    , } , @leftPad ( )@lengthOf( //	t
+chars
+) i64_ @calculatedFrom(""`tick`"" )
+    `" ++ [233]%N ++ runes_of_ascii "`, } packet asx {
+    i32
+rootA @calculatedFrom( ""a\""b"" )`{ , }` , } packet f32a {
+    @leftPad
+(
+)
+// a // b
+//	t
+@calculatedFrom( ""// no comment"" ) repeat zchar[ 007 ] string_ `// not a comment` , match //	t
+Header as pack { [
+""// no comment"", ""a\""b"" ]
+: x,
+    // packet A { u8 x, }
+    [ ""abc"" , //	t
+""\n""
+,""" ++ [233]%N ++ runes_of_ascii "t" ++ [233]%N ++ runes_of_ascii """ ,
+00  , 1	, 42
+] : pack// c
+,	[ 255 , ""a	b""
+    ] : i64_, }
+, options1 roots , int16
+o , @rightPad
+( ' ')char[] tag
+`// not a comment`	, }
+packet roots { uint64 stringy @calculatedFrom( ""1"" ) `two words` ,
+    u8x @calculatedFrom( // " ++ [128512]%N ++ runes_of_ascii " emoji
+""1"" ) `tab	here`, repeat
+    o
+{ charz {match metadata as charz { ""a\""b"": u,[10, ""packet"",
+""// no comment"" ,	7,  1 ,
+    42 ] : lengthOf , ""abc""
+:Packet """ ++ [233]%N ++ runes_of_ascii "t" ++ [233]%N ++ runes_of_ascii """ : crc
+    ,1
+:
+x
+, //	t
+[ """ ++ [28040; 24687]%N ++ runes_of_ascii """
+,""// no comment"" ,
+1 , 0123456789,""\n"" // trailing space 
+,
+    ""1"" ,""" ++ [233]%N ++ runes_of_ascii "t" ++ [233]%N ++ runes_of_ascii """ ] :
+    //x
+    u } , repeat float32
+    As ,// trailing space 
+} ,}
+    //
+    ,
+    //x
+    repeat	char[ 1 //x
+]  x_y_z`line1
+line2`
+    /// triple
+    ,
+// trailing space 
+//x
+}
+")).
+Eval vm_compute in ("<<<M549>>>" ++ check (runes_of_ascii "packet repeatCount
+    { i64 falsey	,char[ 65535
+]
+calculatedFrom  @lengthOf( calculatedFrom
+),int32
+    repeatCount ,  @tag( 4294967296 ) repeat matchKey { repeat
+int64 rootA , match Packet as BodyLength
+    {[ 10]:
+repeatCount
+,""a\\""
+    :	msg_type,  [ ""CRC32"",
+    00
+] : calculatedFrom , 7
+    :
+lengthOf
+, // " ++ [128512]%N ++ runes_of_ascii " emoji
+42 : Header // packet A { u8 x, }
+, [ ""it's"" , ""\n""	,  65535
+, ""`tick`"" ,0 , 65535
+, ""{,}"",255 ]://
+T ,
+} ,} , @calculatedFrom(
+""{,}""
+) match asx
+as metadata
+    {
+3
+: Z9_, ""`tick`""
+:
+    // @lengthOf(
+    string_
+} // `tick` ""quote"" 'q'
+,@rightPad ( '0' ) int8 u128 , @tag( // `tick` ""quote"" 'q'
+3 ) repeat  i8 x_y_z `it's`,
+    @lengthOf(chars )  @calculatedFrom(//
+""" ++ [28040; 24687]%N ++ runes_of_ascii """)string float	, }
+    packet zchar
+    {match uint8x
+    //	t
+    as f32a
+    {[ ""`tick`"" , ""CRC32"" ]
+: repeatCount ,[
+    00
+, ""x y"", 255 , 255 ,
+    1, 7 ,	007 ,
+    7
+]
+    :	tag, ""{,}"": leftPad
+    ,  007 : len , //x
+},
+@calculatedFrom( ""CRC32""  ) @lengthOf(
+x )@calculatedFrom(""\" ++ [233]%N ++ runes_of_ascii """) char[
+65535] string_ , }options { }
+    MetaData u128
+    // c
+    {
+// c
+/// triple
+trueish tag
+// c
+// a // b
+, packetx i8i8 , f64 x_y_z//
+, //x
+trueish u128 , x Header `say ""hi""` , zchar[ 0
+    // `tick` ""quote"" 'q'
+    ] A, } MetaData i64_
+    { }")).
+Eval vm_compute in ("<<<M780>>>" ++ check (runes_of_ascii "root packet
+Logon { zchar[
+    00 ]roots@calculatedFrom(
+    ""a\""b"" ) ,
+}MetaData int
+//	t
+// @lengthOf(
+{
+float
+roots , char u8x `// not a comment` , uint64 _x , // @lengthOf(
+u128 chars
+// @lengthOf(
+//
+`
+`, i16  leftPad `" ++ [28040; 24687; 31867; 22411]%N ++ runes_of_ascii "` ,
+u8
+string_  ,
+    // @lengthOf(
+    }packet trueish
+    { /// triple
+asx
+    //	t
+    {
+msg_type  {	repeat string A	`" ++ [233]%N ++ runes_of_ascii "`, }
+,
+    } , @tag( 65535
+) Packet
+_x `line1
+line2`,
+// packet A { u8 x, }
+// a // b
+repeat uint32 // @lengthOf(
+x_y_z// a // b
+`two words` // c
+,@calculatedFrom( ""packet""
+    )i64_
+@lengthOf( Logon
+) ,
+    @rightPad (	'\x00' ) match
+msg_type as
+    Foo
+{ [  ""{,}"" ,	""a	b"" , 10
+, ""abc"" ]
+    :
+    u128 ,""// no comment"" :
+lengthOf, ""a\""b"" : len// " ++ [27880; 37322]%N ++ runes_of_ascii "
+,	""\n"" : x_y_z } ,
+    repeat int32
+asx `say ""hi""` ,
+    @rightPad ( ) @tag(
+00 ) @rightPad ( ' ' ) char[
+    10 ]crc
+@lengthOf(
+    // packet A { u8 x, }
+    metadata ) `
+`
+    ,
+    @lengthOf(
+msg_type	) char[] charz
+@lengthOf( //x
+Pad
+) `crlf
+line` , zchar[ 65535 ]
+    a1	@calculatedFrom(
+""a\\"" )  ,char[ 42
+    ]
+//x
+// " ++ [128512]%N ++ runes_of_ascii " emoji
+charz
+, }
+root packet BodyLength {@tag(	3
+    )
+@lengthOf(Header ) len @calculatedFrom(
+""""
+) `crlf
+line` ,}")).
+Eval vm_compute in ("<<<M994>>>" ++ check (runes_of_ascii "// c
+packet options1 {	roots
+    // " ++ [128512]%N ++ runes_of_ascii " emoji
+    @lengthOf( zchar ) , @calculatedFrom(
+""" ++ [128512]%N ++ runes_of_ascii """
+)uint64 //
+matchKey
+, @tag(
+42 ) i64
+    // trailing space 
+    Logon@lengthOf(
+i64_  )// `tick` ""quote"" 'q'
+`doc` //x
+, @calculatedFrom(""a\""b""
+    ) A , @calculatedFrom(
+    ""it's"")repeat Pad``
+, @tag( 7 ) zchar[ 00 ]  trueish`" ++ [233]%N ++ runes_of_ascii "`, repeat options1 {
+repeatCount
+{
+Header ,
+char[
+// " ++ [128512]%N ++ runes_of_ascii " emoji
+// packet A { u8 x, }
+7 ]
+Logon
+`a\` , /// triple
+}
+,}, char[1
+] int
+`doc` , // a // b
+@calculatedFrom(""""
+)@calculatedFrom(
+    ""a	b""
+)
+@lengthOf( packetx )
+msg_type// trailing space 
+{ string calculatedFrom `{ , }`
+    // `tick` ""quote"" 'q'
+    , zchar  @calculatedFrom(""" ++ [28040; 24687]%N ++ runes_of_ascii """
+) , uint8
+// " ++ [128512]%N ++ runes_of_ascii " emoji
+// trailing space 
+o `doc` // " ++ [128512]%N ++ runes_of_ascii " emoji
+, f32a ,}  , //x
+} MetaData
+    Z9_ {
+char A//	t
+, }packet // trailing space 
+options1 {
+msg_type { chars ,	zchar[
+3 ] crc
+    `doc`, } ,
+@lengthOf( crc) @tag(10) @lengthOf(asx
+    )zchar[ 10 ]
+Header @calculatedFrom( ""a\\"" ) `u8 x,` ,
+} packet
+int
+{ string x_y_z , @calculatedFrom( ""\" ++ [233]%N ++ runes_of_ascii """)	match pack as
+    roots { 65535 :
+    options1 , // @lengthOf(
+}
+,
     }
 ")).
-Eval vm_compute in ("<<<M479>>>" ++ check (runes_of_ascii "  MetaData tag { lengthOf
-Z9_	, } // `tick` ""quote"" 'q'
-packet body { @lengthOf( uint8x
-    )
-zchar[00
-// packet A { u8 x, }
+Eval vm_compute in ("<<<M1345>>>" ++ check (runes_of_ascii "
+MetaData u128 { } packet string_
+{ @lengthOf(	i64_
+)
+    /// triple
+    repeat u16
+    a1 , falsey	msg_type `doc`//
+,@leftPad('\x00' )
+u64 i64_
+@calculatedFrom(
+    //x
+    """ ++ [28040; 24687]%N ++ runes_of_ascii """ )
+,
+    match
+    body as len {""" ++ [128512]%N ++ runes_of_ascii """ :charz
+    , //x
+} , BodyLength
+    `two words` // `tick` ""quote"" 'q'
+,  @leftPad ( '0'
+) repeat char
+o
+,
+@tag( 42 // `tick` ""quote"" 'q'
+) @tag( 1 )@calculatedFrom(""{,}""//
+)
+    u64 matchKey
+@lengthOf( /// triple
+charz)
+    `// not a comment`
+    ,	@calculatedFrom( ""1"")u8
+A @lengthOf(
+x_y_z )
+    ,	@calculatedFrom( // a // b
+""// no comment"" ) @lengthOf( falsey )	@calculatedFrom(""\" ++ [233]%N ++ runes_of_ascii """) match tag as f32a { [ ""\n""	, // " ++ [27880; 37322]%N ++ runes_of_ascii "
+""x y"" ,
+4294967296  , 00 , ""\n"" , 255
+]:
+    float ,
+[ ""\" ++ [233]%N ++ runes_of_ascii """
+] :packetx ,
+    // " ++ [27880; 37322]%N ++ runes_of_ascii "
+    0 :
+Z9_
+    , [
+""" ++ [233]%N ++ runes_of_ascii "t" ++ [233]%N ++ runes_of_ascii """
+]// `tick` ""quote"" 'q'
+:	rootA
+    ,} , } options{ f32a =
+char[ 00 ]
+    // `tick` ""quote"" 'q'
+    ;
+tag =
+4294967296 ; rootA=""{,}"" } options
+    {
 //	t
-] metadata@lengthOf(
-lengthOf)
-    , @rightPad ( ) u @lengthOf(	asx )  `{ , }`, roots // `tick` ""quote"" 'q'
-{ Foo{
-    packetx
+// `tick` ""quote"" 'q'
+msg_type =""\n"" ; f32a
+=
+""// no comment""
+//x
+// `tick` ""quote"" 'q'
+; falsey = 65535 ;}
+")).
+Eval vm_compute in ("<<<M4178>>>" ++ check (runes_of_ascii "
+
+  packet
+    // `tick` ""quote"" 'q'
+	  //x
+		uint8x 
+{
+zchar[	007	] 
+Header
+    @calculatedFrom( ""a	b"" 
+) ,
+}
+	packet
+
+    i64_
+    {
+
+    @lengthOf(  crc  )  /// triple
+string
+	metadata
+`
+`	//	t
+, 	 // trailing space 
+	uint8x 	 // " ++ [128512]%N ++ runes_of_ascii " emoji
+
+{
+    repeat
+
+    u16
+    string_ ,
+    }  , 	 // `tick` ""quote"" 'q'
+	packetx  {
+zchar[
+0123456789
+]
+calculatedFrom	@calculatedFrom( """ ++ [28040; 24687]%N ++ runes_of_ascii """) `crlf
+line`  ,
+tag {	zchar[ 
+007 ]
+	tag 
+@calculatedFrom(
+
+    ""1""	)
     ,
-}, match
-pack as stringy
-    { 65535 : Logon  , """ ++ [233]%N ++ runes_of_ascii "t" ++ [233]%N ++ runes_of_ascii """ :
-x_y_z [ """"
+
+string u , 
+repeat  A  T, 
+roots
+
+    @lengthOf(
+Logon
+	)
+,
+	// `tick` ""quote"" 'q'
+
+}, u8x `` ,int64
+
+    metadata `tab	here`
+
+, }
+	,}
+    packet
+	rootA	{
+@lengthOf( string_ ) Header
+    A
+    `doc`
+
+    , 
+match
+stringy
+as 
+x
+    { // c
+    0123456789 :
+metadata	, 0: rootA
+
+, 42:
+
+A ,
+	[
+00 ,
+    ""abc""
+
+    ] :
+
+T 4294967296 :  a1 
+, // @lengthOf(
+    	} , 
+@rightPad	(
+	'0'
+)	@tag( 4294967296
+
+    )
+	@tag( 00
+
+    )
+char[] Foo  @calculatedFrom( ""1"" ) `crlf
+line`
+, }")).
+Eval vm_compute in ("<<<M1237>>>" ++ check (runes_of_ascii "// a // b
+options
+    { i64_ //
+=
+    false ; BodyLength
+    =
+    10	;} packet msg_type { @lengthOf( msg_type) match rootA as
+    tag { ""1""	:// `tick` ""quote"" 'q'
+u8x ,[""x y""
+    ,// " ++ [128512]%N ++ runes_of_ascii " emoji
+""" ++ [233]%N ++ runes_of_ascii "t" ++ [233]%N ++ runes_of_ascii """, 0123456789
+, 007 , 7, 255 ,	7 , 65535]:matchKey,4294967296 :chars""packet"" : charz
+    ,
+    ""// no comment"": // a // b
+i64_ ,
+10 : MetaDataX  ,} , @lengthOf( metadata )
+MetaDataX@calculatedFrom(""" ++ [233]%N ++ runes_of_ascii "t" ++ [233]%N ++ runes_of_ascii """ ) `
+` , f32a{
+matchKey, } , zchar[10 ]  _x
+`line1
+line2` ,metadata crc ,	@lengthOf( body) char[
+3  ]string_ ,repeat T , trueish// @lengthOf(
+i8i8 ,f32
+Header`
+`,	@leftPad	(' ' ) char[00 ]o , } packet zchar { @lengthOf( Packet
+) @lengthOf( falsey)// " ++ [128512]%N ++ runes_of_ascii " emoji
+repeat rootA `doc`
+    , @leftPad // " ++ [128512]%N ++ runes_of_ascii " emoji
+( ' '
+// @lengthOf(
+// @lengthOf(
+) char[] float @lengthOf(
+roots )
+,
+    }root packet //x
+lengthOf{
+rootA// trailing space 
+@calculatedFrom(
+    ""it's"" ) ,
+} root
+    packet repeatCount// a // b
+{ }
+")).
+Eval vm_compute in ("<<<M1147>>>" ++ check (runes_of_ascii "
+root packet options1
+    { uint64	x ,	@lengthOf( i8i8
+    ) repeat
+char[ 0] len, crc `u8 x,`, As
+@calculatedFrom(""a	b""
+/// triple
+// @lengthOf(
+), @rightPad () @calculatedFrom( ""1""//x
+) string charz @calculatedFrom(
+""" ++ [233]%N ++ runes_of_ascii "t" ++ [233]%N ++ runes_of_ascii """	)`two words` , @tag( 00 )f32a
+//x
+//	t
+{ char[] trueish@lengthOf( //	t
+MetaDataX ) `// not a comment`
+,repeat	int16 float
+,
+body `u8 x,` , } //x
+, @calculatedFrom( // a // b
+""x y""  )
+//x
+//
+match Header as falsey { 7  :f32a , } ,  @tag( 00 )	match zchar
+as
+    Logon {
+[7
+, 7 ,
+    ""`tick`"",
+""\" ++ [233]%N ++ runes_of_ascii """ , 255] : A
+, [ 1 ]  :Z9_ [ ""1"" , 1 ,
+    ""`tick`"" ,""a	b""
+,
+//	t
+// a // b
+""\" ++ [233]%N ++ runes_of_ascii """ , """ ++ [28040; 24687]%N ++ runes_of_ascii """ ]	:
+Pad [ ""1"" // " ++ [128512]%N ++ runes_of_ascii " emoji
+, """" ,
+1	,
+00  ,""" ++ [128512]%N ++ runes_of_ascii """ , ""1"" , 1 , ""{,}"" ]
+: Z9_ ,10:
+A,
+    """ ++ [233]%N ++ runes_of_ascii "t" ++ [233]%N ++ runes_of_ascii """
+    : u8x
+    // " ++ [128512]%N ++ runes_of_ascii " emoji
+    , } , repeat int64 metadata ,
+    @rightPad (
+'0' )match tag as BodyLength
+    {""CRC32"" : asx , 10:
+    metadata , }
+    ,}")).
+Eval vm_compute in ("<<<M553>>>" ++ check (runes_of_ascii "packet
+    A { calculatedFrom
+    //
+    @lengthOf(//
+zchar ) `say ""hi""`	, @calculatedFrom(  ""{,}""
+)
+repeat
+    u8x // `tick` ""quote"" 'q'
+uint8x `u8 x,` ,
+    match
+//
+// " ++ [128512]%N ++ runes_of_ascii " emoji
+o as matchKey {
+[ 3 ,""""]: T ,//
+""{,}""// @lengthOf(
+:
+// a // b
+// packet A { u8 x, }
+calculatedFrom } ,
+    repeat char[ 255	] u
+,char[]Packet ,repeat int64
+packetx// trailing space 
+,  @leftPad( '\x00'
+)@calculatedFrom( """" ) zchar { // trailing space 
+f32
+    //
+    zchar `" ++ [28040; 24687; 31867; 22411]%N ++ runes_of_ascii "`,match
+u128 as
+    options1
+{ [""abc"",10 ,
+    65535 , 0 , ""\n"" ,""" ++ [128512]%N ++ runes_of_ascii """ ,
+0123456789 ]
+    : // a // b
+chars
+, 00 :
+As
+, ""a	b""
+    : packetx, 10: a1, // packet A { u8 x, }
+} , },
+    float64 calculatedFrom @lengthOf( //
+packetx
+    ) ,char[ //x
+00]
+// " ++ [128512]%N ++ runes_of_ascii " emoji
+//
+string_ `
+` , @calculatedFrom( ""it's""
+    )@leftPad
+()
+    f32 BodyLength , }
+// " ++ [27880; 37322]%N ++ runes_of_ascii "
+")).
+Eval vm_compute in ("<<<M798>>>" ++ check (runes_of_ascii "
+options
+    { MetaDataX = zchar[
+10 ]
+    ;
+Pad
+=	true // trailing space 
+;asx=
+    false ;Header=""" ++ [233]%N ++ runes_of_ascii "t" ++ [233]%N ++ runes_of_ascii """ roots = ""it's""
+} // " ++ [128512]%N ++ runes_of_ascii " emoji
+options { // a // b
+a1
+    =
+//	t
+//	t
+false
+;
+asx	= '\x00'
+; zchar  =""packet"" BodyLength	= """"// trailing space 
+As
+= true } packet rootA//x
+{} packet	calculatedFrom { repeat	char[]
+matchKey ,  repeat trueish {	i16 repeatCount @lengthOf( rootA ) , } , uint64
+i8i8 , int64 _x @calculatedFrom(
+""// no comment"") ,
+@lengthOf(tag ) repeat
+    leftPad	, @lengthOf( o  ) // " ++ [128512]%N ++ runes_of_ascii " emoji
+zchar
+    // packet A { u8 x, }
+    @calculatedFrom(""`tick`""
+) ,tag @lengthOf(
+x_y_z
+    // `tick` ""quote"" 'q'
+    ) ,
+A@lengthOf(
+    uint8x )`u8 x,` ,/// triple
+roots { u128
+    ,	} , } root // " ++ [27880; 37322]%N ++ runes_of_ascii "
+packet uint8x
+{A // " ++ [27880; 37322]%N ++ runes_of_ascii "
+@lengthOf(
+    x )`" ++ [233]%N ++ runes_of_ascii "` , }")).
+Eval vm_compute in ("<<<M1025>>>" ++ check (runes_of_ascii "root packet
+roots //
+{ // trailing space 
+} root packet MetaDataX
+{
+char[255 ]	rootA , }/// triple
+packet u8x { @rightPad
+( // " ++ [27880; 37322]%N ++ runes_of_ascii "
+) msg_type@lengthOf( Z9_
+) , char[
+    0
+] x_y_z @lengthOf( len )// " ++ [27880; 37322]%N ++ runes_of_ascii "
+`it's`// " ++ [128512]%N ++ runes_of_ascii " emoji
+, @rightPad
+( ' ') int16 calculatedFrom ,chars @lengthOf(//x
+msg_type
+)
+//	t
+// @lengthOf(
+`it's`
+,
+    repeat pack { repeat u64 // c
+x
+    ,
+}	, i8
+metadata @calculatedFrom(""" ++ [28040; 24687]%N ++ runes_of_ascii """ )
+,
+    match o as len { [ 0123456789 ,
+""a\""b"" , 65535
+    // `tick` ""quote"" 'q'
+    ,
+""" ++ [128512]%N ++ runes_of_ascii """ , 0123456789 ,
+""{,}""] : body 3:
+As , 3: As ,
+42 : int , 1// @lengthOf(
+:
+    o
+    ,  [ 1
     ]
-    :	metadata
-[ 65535 // a // b
-, ""it's""	,
-    00 ,// packet A { u8 x, }
-""{,}"", ""`tick`"" ,4294967296 , 42, 0 ] // " ++ [27880; 37322]%N ++ runes_of_ascii "
-:o ""it's"" : // c
-leftPad , } ,
-repeat string calculatedFrom ,u64 options1 ,
-    }  ,@lengthOf(
+: o// c
+,
+} ,
+zchar[ 007] asx
+,
+    asx
+@lengthOf( zchar
+// packet A { u8 x, }
+// @lengthOf(
+) ,
+f64 Logon
+    ``
+    // " ++ [27880; 37322]%N ++ runes_of_ascii "
+    ,
+} //")).
+Eval vm_compute in ("<<<M3988>>>" ++ check (runes_of_ascii "packet Frame {
+    // c2a
+    // c2b
+    u8 HK,// c5a
+    // c5b
+    u8 BK,
+    u8 TK,// c11a
+    // c11b
+    match HK as Hdr {
+        // c16
+        1 : HdrA,
+        // c20a
+        // c20b
+        2 : HdrB,
+    },
+    // c26
+    match BK as Body {
+        // c31
+        1 : BodyA,
+        // c35
+        2 : BodyB,
+        // c39
+    },// c41
+    match TK as Trl {
+        // c46
+        1 : TrlA,
+    },// c52
+}// c53
+
+packet HdrA {
+    u8 a,
+    // c59
+}
+
+packet HdrB {
+    u16 b,
+}// c67a
+
+// c67b
+packet BodyA {
+    // c70
+    u32 c,
+    // c73
+}
+
+// c74
+packet BodyB {
+    // c77
+    u64 d,// c80
+}
+
+// c81
+packet TrlA {
+    u8 e,
+}
+
+root packet Msg {
+    Frame,
+    u8 x,
+}// c98")).
+Eval vm_compute in ("<<<M688>>>" ++ check (runes_of_ascii "options { msg_type
+=65535
+    ; a1 = """ ++ [128512]%N ++ runes_of_ascii """
+; Foo
+=  ""\" ++ [233]%N ++ runes_of_ascii """matchKey
+=
+'0'
+; chars = """ ++ [28040; 24687]%N ++ runes_of_ascii """
+    //	t
+    } packet lengthOf {
+// c
+//x
+} MetaData body
+{
+    A len // packet A { u8 x, }
+`" ++ [28040; 24687; 31867; 22411]%N ++ runes_of_ascii "` ,}
+packet
+    o{
+@rightPad //x
+(
+'\x00' ) int
+// `tick` ""quote"" 'q'
+// packet A { u8 x, }
+roots , repeat
+    u8x
+`tab	here`	,
+i32 x_y_z @lengthOf( Logon
+) `line1
+line2`,
+    _x
+Z9_ , @lengthOf(
+zchar )  i32 msg_type `doc`
+,	@rightPad ( ' '	) i8 options1
+    //
+    ,
+@lengthOf(packetx) charz
+@lengthOf(
+// packet A { u8 x, }
+// trailing space 
+o
+    ) , @rightPad ( ' ' ) match /// triple
+packetx as leftPad{
+    [ ""{,}""  ,
+""" ++ [128512]%N ++ runes_of_ascii """
+    ]:
+    charz	,
+    } ,	}
+")).
+Eval vm_compute in ("<<<M1268>>>" ++ check (runes_of_ascii "  packet	Packet{ } root
+packet pack { @calculatedFrom( ""CRC32"")string
+pack`two words`
+    // " ++ [128512]%N ++ runes_of_ascii " emoji
+    , @lengthOf(Pad
+    )
+@lengthOf(
+rootA ) i16 A`doc`, } options {asx =00;
+string_= 7 ;
+x_y_z= 0123456789; } packet uint8x { int32
+trueish @lengthOf( roots ) `say ""hi""` ,
+    @tag( 1 ) @lengthOf(	a1 )
+match
+f32a as
+MetaDataX {
+/// triple
+// trailing space 
+7 :	pack 65535 :
+//
+// `tick` ""quote"" 'q'
+calculatedFrom
+// a // b
+// " ++ [27880; 37322]%N ++ runes_of_ascii "
+, [
+    3,""// no comment""
+    ,  1 ,
+/// triple
+/// triple
+0123456789 ]:
+    // c
+    Z9_ ,4294967296
+: a1 ,007:int """ ++ [128512]%N ++ runes_of_ascii """ : o
+,
+}
+    ,	repeat calculatedFrom a1 `crlf
+line`
+, }
+")).
+Eval vm_compute in ("<<<M4325>>>" ++ check (runes_of_ascii "
+
+  packet  Logon// `tick` ""quote"" 'q'
+	{@rightPad( 
+)
+
+repeat
+
+    Z9_
+	, match
+
+i64_ 
+	//x
+	// @lengthOf(
+	as len {
+
+65535
+        // " ++ [27880; 37322]%N ++ runes_of_ascii "
+    // @lengthOf(
+    :
+MetaDataX
+, """ ++ [128512]%N ++ runes_of_ascii """ :  u128,""" ++ [28040; 24687]%N ++ runes_of_ascii """
+    :
+
+lengthOf""a	b"" :  o
+
+    ,[	255// c
+] :
+As
+,[ ""\n""
+]
+
+    : 
+    // @lengthOf(
+  // trailing space 
+    o  ,  }	,
+@tag( 
+  //	t
+
+	// trailing space 
+
+  42
+	)
+    @tag(1
+    ) 	 //	t
+string_@calculatedFrom( ""1""
+
+    )
+, } 
+root packet
+
+matchKey { repeat u32
+    MetaDataX  ,float32
+
+As
+@lengthOf(
+charz )
+,a1	repeatCount	`
+`  , } packet msg_type
+
+// trailing space 
+{  }
+")).
+Eval vm_compute in ("<<<M4091>>>" ++ check (runes_of_ascii "
+root packet	rootA
+    {
+    @calculatedFrom( """ ++ [28040; 24687]%N ++ runes_of_ascii """ 
+) u
+`" ++ [233]%N ++ runes_of_ascii "`	, 
+body
+	, // " ++ [27880; 37322]%N ++ runes_of_ascii "
+
+	x@lengthOf(	options1	// @lengthOf(
+    )	, 
+  // " ++ [128512]%N ++ runes_of_ascii " emoji
+  // c
+    matchKey
+	, 
+@calculatedFrom(""packet""
+)char[] f32a
+,u8	options1
+    `tab	here`
+,
+}	packet
+Packet//
+		{}
+options{chars=
+
+    00
+
+    ; Foo// packet A { u8 x, }
+
+	=  true  ;
+	trueish
+    // " ++ [27880; 37322]%N ++ runes_of_ascii "
+  = 
+""1""
+
+    ;	zchar = f64  ;	matchKey
+    =// " ++ [27880; 37322]%N ++ runes_of_ascii "
+
+false
+	;
+
+} 
+packet metadata	{
+	@leftPad(	'\x00'
+)
+
+f32
+charz
+
+@calculatedFrom( ""{,}"")
+	`// not a comment` 
+,
+
+@calculatedFrom(	""1""
+)	repeat int8
+crc
+    , }
+
+")).
+Eval vm_compute in ("<<<M4199>>>" ++ check (runes_of_ascii "options {
+}
+
+packet Packet {
+    repeat zchar[0123456789] crc,
+    repeat zchar[4294967296] Z9_,// packet A { u8 x, }
+    rootA,
+    repeat Packet {
+        lengthOf {
+            u8x `{ , }`,
+            zchar[0123456789] lengthOf `{ , }`,// " ++ [27880; 37322]%N ++ runes_of_ascii "
+            Header {
+                repeat f32 As `line1
+                line2`,
+                charz @calculatedFrom(""1""),
+            },
+        },
+    },
+    i8 float @lengthOf(T),
+    @lengthOf(metadata)
+    @calculatedFrom(""packet"")
+    @lengthOf(repeatCount)
+    repeat f32 Foo,
+}")).
+Eval vm_compute in ("<<<M4443>>>" ++ check (runes_of_ascii "options {
+    x = true
+    trueish = 007;
+    float = int64;/// triple
+    metadata = true//	t
+}
+
+options {
+    As = ""{,}"";
+}
+
+packet As {
+    @rightPad('0')
+    @leftPad('0')
+    char[10] trueish,
+    @calculatedFrom(""`tick`"")
+    Foo {
+        int64 packetx @calculatedFrom(""a\""b"") `" ++ [28040; 24687; 31867; 22411]%N ++ runes_of_ascii "`,
+        repeat int64 int,
+        zchar[007] Header,
+        repeat body,// " ++ [27880; 37322]%N ++ runes_of_ascii "
+    },
+    repeat char[0] u8x,
+    Pad,
+    @rightPad('0')
+    f64 leftPad `a\`,
+    repeat rootA repeatCount `{ , }`,
+    rootA float `doc`,
+}")).
+Eval vm_compute in ("<<<M786>>>" ++ check (runes_of_ascii "MetaData
+    metadata{ } packet u // a // b
+{ //
+@lengthOf(	T) // packet A { u8 x, }
+@lengthOf(u ) /// triple
+@leftPad ('0'
+//	t
+// " ++ [27880; 37322]%N ++ runes_of_ascii "
+) repeat
+    uint8
+x_y_z `" ++ [28040; 24687; 31867; 22411]%N ++ runes_of_ascii "`,
+    } root packet A{ @tag(
+    // a // b
+    10 )
+repeat zchar[ 0
+    ]
+    asx `doc` ,
+    char[// @lengthOf(
+7 ]float//x
+@lengthOf(BodyLength)	`crlf
+line` ,
+zchar[ 0123456789 ] u128
+,@rightPad
+    ( )  repeat zchar[ 255
+] Packet
+    ``
+    ,BodyLength Pad
+,
+    @tag(1
+)zchar[
+    10] float @lengthOf( roots) ,}")).
+Eval vm_compute in ("<<<M366>>>" ++ check (runes_of_ascii "  packet tag  {
+@calculatedFrom(""" ++ [28040; 24687]%N ++ runes_of_ascii """)A
+    `" ++ [233]%N ++ runes_of_ascii "`
+    ,
+    // a // b
+    match u as
+// c
+// trailing space 
+len	{ [42 , """ ++ [233]%N ++ runes_of_ascii "t" ++ [233]%N ++ runes_of_ascii """ ] : As
+42 :
+    string_
+,
+""CRC32"" :
+body , ""x y"":
+    x //
+,  [
 // `tick` ""quote"" 'q'
 // @lengthOf(
-repeatCount )	@tag( 65535
-    // trailing space 
-    )
-@calculatedFrom( ""`tick`"" //
-) zchar @lengthOf(crc)
-`
-`
-    // @lengthOf(
-    , x_y_z ,
-} packet lengthOf // c
-{ @leftPad ( '0'
-)@lengthOf( uint8x
-) @leftPad
-//x
-/// triple
-( ' '	) Foo @calculatedFrom(
-""a\""b"") , zchar[
-7 ] Z9_
-    ,  } packet	crc{ @calculatedFrom( ""{,}""  ) @tag( 3	) @lengthOf(
-// packet A { u8 x, }
-// c
-int
-)
-    crc charz
-, } options { int
+007 , 4294967296 ,""{,}"" ,
+""""
+    , """ ++ [28040; 24687]%N ++ runes_of_ascii """ , ""it's"" , """ ++ [128512]%N ++ runes_of_ascii """
+    ] : u
+    // " ++ [128512]%N ++ runes_of_ascii " emoji
+    ,""" ++ [28040; 24687]%N ++ runes_of_ascii """  : _x,  }
+,@lengthOf(rootA) u128 `doc`
+,// " ++ [27880; 37322]%N ++ runes_of_ascii "
+} options { falsey
 =
-    '0' ; Packet =
-""" ++ [128512]%N ++ runes_of_ascii """ Packet
-= ""`tick`"" ;float = char[
-    10 ] ; // " ++ [27880; 37322]%N ++ runes_of_ascii "
-msg_type
-    = char[ 00
-    ]}
+string
+string_=int8 ; } options
+{// c
+charz
+// c
+// trailing space 
+= ""CRC32"" }
 ")).
-Eval vm_compute in ("<<<M3593>>>" ++ check (runes_of_ascii "// top
+Eval vm_compute in ("<<<M739>>>" ++ check (runes_of_ascii "
+packet
+    Pad{// `tick` ""quote"" 'q'
+@tag( 42)
+body
+u8x , char[ 3 ]
+u128
+`it's`
+,
+char[ 4294967296 ]uint8x`two words`  ,@lengthOf(	f32a ) body {repeat string roots ,Pad @calculatedFrom( ""\" ++ [233]%N ++ runes_of_ascii """ // trailing space 
+)
+,
+// trailing space 
+// " ++ [27880; 37322]%N ++ runes_of_ascii "
+metadata  crc`tab	here`, lengthOf
+    {zchar[  0 ] x_y_z
+    // packet A { u8 x, }
+    @lengthOf( crc )
+    `u8 x,` ,char[] roots ,
+    //x
+    } ,
+    } ,	}
+    // c
+    options {rootA =""packet""
+    }")).
+Eval vm_compute in ("<<<M1250>>>" ++ check (runes_of_ascii "  MetaData metadata	{repeatCount
+asx, u16 trueish ,i8i8 Foo
+`say ""hi""`// packet A { u8 x, }
+, char[ 4294967296 ]
+u,
+} packet uint8x {
+repeat char[]
+    u, @tag(007 )  char[7 ]falsey@calculatedFrom(""" ++ [233]%N ++ runes_of_ascii "t" ++ [233]%N ++ runes_of_ascii """ ) , @leftPad (
+    '\x00' )
+@lengthOf(	leftPad )
+Packet{
+    repeat //	t
+packetx Header ,tag `" ++ [233]%N ++ runes_of_ascii "` , i16 _x `a\` , },	repeat A {//	t
+repeat Header
+`doc` ,i64_  , char[ 10] asx
+    `two words`
+, }// `tick` ""quote"" 'q'
+,} 	 ")).
+Eval vm_compute in ("<<<M813>>>" ++ check (runes_of_ascii "packet chars	{
+} root  packet chars { zchar[// @lengthOf(
+00 ]
+    lengthOf
+    `" ++ [28040; 24687; 31867; 22411]%N ++ runes_of_ascii "` ,}root packet  tag  {
+    @rightPad ( '\x00' ) zchar[ 3] Foo @lengthOf(pack),
+zchar[ 10 ]tag ,	repeat uint32
+int, @rightPad
+    ( '\x00'
+)	@lengthOf(f32a ) @rightPad
+//
+//x
+( ' ' )Packet int ,
+match
+    //	t
+    len// " ++ [27880; 37322]%N ++ runes_of_ascii "
+as i8i8
+{ 10	: chars ,}
+    , @calculatedFrom( ""x y"" ) Z9_
+    @calculatedFrom(	""it's""	) ,
+    } //	t")).
+Eval vm_compute in ("<<<M3889>>>" ++ check (runes_of_ascii "packet body {
+    Pad {
+        a1 `crlf
+        line`,
+        zchar[007] a1,
+        char[10] x_y_z,
+        repeat zchar[1] metadata `u8 x,`,
+    },
+    string trueish,
+    repeat uint8x u,
+    @tag(007)
+    calculatedFrom {
+        repeat BodyLength `doc`,
+    },
+    int64 lengthOf,/// triple
+    @lengthOf(leftPad)
+    @calculatedFrom(""x y"")
+    @calculatedFrom(""\" ++ [233]%N ++ runes_of_ascii """)
+    falsey a1,
+}")).
+Eval vm_compute in ("<<<M114>>>" ++ check (runes_of_ascii "packet BodyLength {  @tag(
+0 )
+    char[
+4294967296 ]
+    options1 , }
+    root packet asx{ repeat string //x
+zchar //	t
+,
+    repeat char string_ `" ++ [28040; 24687; 31867; 22411]%N ++ runes_of_ascii "` ,
+    } options{ rootA = zchar[ 00
+] ;len = ""a\""b"" ; float =7;uint8x= f64 ;// `tick` ""quote"" 'q'
+}root packet
+    stringy{trueish Foo , } packet
+pack{ u64
+// @lengthOf(
+// c
+repeatCount @lengthOf( Header
+    ) ,
+}
+
+")).
+Eval vm_compute in ("<<<M4282>>>" ++ check (runes_of_ascii "
+MetaData 
+u
+
+    { }  options  { 
+// c
+	// @lengthOf(
+      float = int8  ;
+    rootA
+    =
+
+false
+;
+As
+= 
+int16 // `tick` ""quote"" 'q|'
+    repeatCount
+    // trailing space 
+	=
+
+int16 ;
+u8x
+= 
+//	t
+
+  '\x00'
+;
+}options{
+	repeatCount= 
+0  u128
+    //
+  =
+    false ;
+i64_ 
+
+    // trailing space 
+	// `tick` ""quote"" 'q'
+
+='0'
+
+    ;//	t
+
+  }
+
+")).
+Eval vm_compute in ("<<<M1152>>>" ++ check (runes_of_ascii "packet lengthOf { string falsey
+//
+// trailing space 
+, repeat char[] tag  `
+`
+    // " ++ [27880; 37322]%N ++ runes_of_ascii "
+    ,
+    @rightPad('0' ) body { int8 pack@calculatedFrom( """" )`say ""hi""`
+    ,// a // b
+repeat
+    char calculatedFrom ,float32 leftPad @lengthOf(
+A )
+// c
+// @lengthOf(
+, int64  Header ,	}
+, i64_`{ , }`
+,
+f64 repeatCount `" ++ [233]%N ++ runes_of_ascii "` ,
+} // trailing space ")).
+Eval vm_compute in ("<<<M200>>>" ++ check (runes_of_ascii "options
+{ }	MetaData
+Foo {
+char[
+    0 ]  Logon `u8 x,` ,// packet A { u8 x, }
+zchar[ 255 ]
+    calculatedFrom `
+` ,
+    zchar[ 00 ]o
+    `u8 x,` ,char[255 ]
+Header `a\`// `tick` ""quote"" 'q'
+, // a // b
+Pad
+    Pad ,
+    } packet i8i8 {
+    u32
+    // " ++ [128512]%N ++ runes_of_ascii " emoji
+    float,// @lengthOf(
+As @calculatedFrom( ""// no comment"" ) , }")).
+Eval vm_compute in ("<<<M1923>>>" ++ check (runes_of_ascii "MetaData
+    u { }  options {
+// c
+// @lengthOf(
+float = int8 ;rootA =false repeat As =	int16 // `tick` ""quote"" 'q'
+repeatCount
+    // trailing space 
+    =
+    int16
+; u8x =
+    //	t
+    '\x00' ; } options	{
+    repeatCount
+= 0
+u128
+    //
+    = false ; i64_
+// trailing space 
+// `tick` ""quote"" 'q'
+= '0' ; //	t
+}
+")).
+Eval vm_compute in ("<<<M1901>>>" ++ check (runes_of_ascii "MetaData
+    u { }  options {
+// c
+// @lengthOf(
+float = int8 ; ;rootA =false ; As =	int16 // `tick` ""quote"" 'q'
+repeatCount
+    // trailing space 
+    =
+    int16
+; u8x =
+    //	t
+    '\x00' ; } options	{
+    repeatCount
+= 0
+u128
+    //
+    = false ; i64_
+// trailing space 
+// `tick` ""quote"" 'q'
+= '0' ; //	t
+}
+")).
+Eval vm_compute in ("<<<M1907>>>" ++ check (runes_of_ascii "MetaData
+    u { }  options {
+// c
+// @lengthOf(
+float = int8 ;= rootA false ; As =	int16 // `tick` ""quote"" 'q'
+repeatCount
+    // trailing space 
+    =
+    int16
+; u8x =
+    //	t
+    '\x00' ; } options	{
+    repeatCount
+= 0
+u128
+    //
+    = false ; i64_
+// trailing space 
+// `tick` ""quote"" 'q'
+= '0' ; //	t
+}
+")).
+Eval vm_compute in ("<<<M1952>>>" ++ check (runes_of_ascii "MetaData
+    u { }  options {
+// c
+// @lengthOf(
+float = int8 ;rootA =false ; As =	int16 // `tick` ""quote"" 'q'
+repeatCount
+    // trailing space 
+    =
+    ;
+int16 u8x =
+    //	t
+    '\x00' ; } options	{
+    repeatCount
+= 0
+u128
+    //
+    = false ; i64_
+// trailing space 
+// `tick` ""quote"" 'q'
+= '0' ; //	t
+}
+")).
+Eval vm_compute in ("<<<M1888>>>" ++ check (runes_of_ascii "MetaData
+    u { }  options {
+// c
+// @lengthOf(
+root = int8 ;rootA =false ; As =	int16 // `tick` ""quote"" 'q'
+repeatCount
+    // trailing space 
+    =
+    int16
+; u8x =
+    //	t
+    '\x00' ; } options	{
+    repeatCount
+= 0
+u128
+    //
+    = false ; i64_
+// trailing space 
+// `tick` ""quote"" 'q'
+= '0' ; //	t
+}
+")).
+Eval vm_compute in ("<<<M1229>>>" ++ check (runes_of_ascii "packet leftPad { repeat string x	,float matchKey  `u8 x,` ,	repeat zchar[1 ]  u8x `doc` , @leftPad
+( ' ' ) i8i8 @lengthOf(
+rootA )// c
+,
+//	t
+// trailing space 
+int8 //
+x `doc` ,
+// c
+// @lengthOf(
+@tag( 1) @leftPad (
+'\x00' ) @lengthOf( // packet A { u8 x, }
+_x
+)
+char[] x @calculatedFrom(""""
+    )
+    ,	}
+")).
+Eval vm_compute in ("<<<M342>>>" ++ check (runes_of_ascii "root packet roots {  @tag(7 // `tick` ""quote"" 'q'
+) int64
+    A ,}
+//
+//
+packet u128
+    // a // b
+    { msg_type Pad
+`line1
+line2` , }options {crc = ""\" ++ [233]%N ++ runes_of_ascii """
+; }
+    root packet _x
+    {
+@lengthOf( pack// " ++ [27880; 37322]%N ++ runes_of_ascii "
+)
+    i16 MetaDataX	, calculatedFrom
+    { packetx@lengthOf(BodyLength )`{ , }` , } // a // b
+,}")).
+Eval vm_compute in ("<<<M3602>>>" ++ check (runes_of_ascii "// top
 packet // c0
-A // c1a
+FooBar // c1a
   // c1b
-{
-    // c2
-u8
-    // c3
-a // c4a
-  // c4b
-, } packet // c7a
+{ // c2
+u8 a , // c5a
+  // c5b
+} // c6a
+  // c6b
+packet // c7a
   // c7b
-B // c8a
-  // c8b
+foo_bar
+    // c8
 { // c9a
   // c9b
 u16
     // c10
-b
-    // c11
-, // c12a
-  // c12b
-} packet
-    // c14
-C // c15a
-  // c15b
-{ // c16
-u32 c
-    // c18
-, // c19a
-  // c19b
-}
-    // c20
-root // c21
-packet // c22a
-  // c22b
-M
-    // c23
-{ // c24a
-  // c24b
-u16 // c25
-Kc // c26
-,
-    // c27
-u16
-    // c28
-Kb // c29
-, // c30a
-  // c30b
-u16
-    // c31
-Ka
-    // c32
-,
-    // c33
-match // c34
-Kc as
-    // c36
-X // c37
-{
-    // c38
-9 // c39
-:
-    // c40
-A
-    // c41
-, 10 // c43
-: // c44a
-  // c44b
-B // c45a
-  // c45b
-, // c46a
-  // c46b
-}
-    // c47
-, // c48a
-  // c48b
-match Kb // c50
-as Y // c52a
-  // c52b
-{ 2
-    // c54
-: // c55
-C
-    // c56
-, // c57
-1 : A // c60
-, // c61
-} // c62a
-  // c62b
-, match // c64a
-  // c64b
-Ka as
-    // c66
-Z
-    // c67
-{ // c68a
-  // c68b
-1 // c69a
-  // c69b
-: // c70a
-  // c70b
-B
-    // c71
-,
-    // c72
-} , // c74a
-  // c74b
-A // c75
-, // c76
-B , // c78a
-  // c78b
-C // c79a
-  // c79b
-, // c80a
-  // c80b
-} // c81
-")).
-Eval vm_compute in ("<<<M947>>>" ++ check (runes_of_ascii "packet chars {
-    u8 _x@calculatedFrom(
-    """ ++ [233]%N ++ runes_of_ascii "t" ++ [233]%N ++ runes_of_ascii """ )
-, @lengthOf( stringy //
-)
-@calculatedFrom( ""a\""b"" ) repeat options1 {body uint8x
-`doc` ,
-a1 @lengthOf( f32a ) `tab	here` ,
-repeat body // `tick` ""quote"" 'q'
-{ float64 BodyLength
-,
-    } ,
-    // @lengthOf(
-    }  ,@lengthOf(
-uint8x ) chars//	t
-`crlf
-line`
-, @lengthOf( // c
-crc
-    // `tick` ""quote"" 'q'
-    )@tag( 4294967296	)	char[] i8i8`tab	here` , char[]x
-    `// not a comment` ,repeat string uint8x ,	@calculatedFrom( ""// no comment"" ) @calculatedFrom( ""it's""	)	i8 falsey , int @calculatedFrom( """ ++ [233]%N ++ runes_of_ascii "t" ++ [233]%N ++ runes_of_ascii """ )
-,
-    // " ++ [27880; 37322]%N ++ runes_of_ascii "
-    match u128 as Foo {""" ++ [28040; 24687]%N ++ runes_of_ascii """ :trueish,	[ """ ++ [128512]%N ++ runes_of_ascii """//	t
-, ""1"" // a // b
-, 42 ,""" ++ [233]%N ++ runes_of_ascii "t" ++ [233]%N ++ runes_of_ascii """ ] // packet A { u8 x, }
-:
-Pad[0123456789 // packet A { u8 x, }
-]:
-    repeatCount
-007
-:calculatedFrom }
-,
-    // packet A { u8 x, }
-    }options { trueish = 10; //x
-Packet = true ; u128
-= false ; charz	= 007 ;
-    // " ++ [27880; 37322]%N ++ runes_of_ascii "
-    } options  { Pad = ""`tick`""// packet A { u8 x, }
-leftPad = true
-// a // b
-// " ++ [27880; 37322]%N ++ runes_of_ascii "
-charz  = char[] ;	_x = //x
-true }
-
-")).
-Eval vm_compute in ("<<<M4375>>>" ++ check (runes_of_ascii "
-packet f32a
-{ @calculatedFrom( ""1""
-    )_x{string
-        /// triple
-  //	t
-metadata
-	@calculatedFrom(	""`tick`""
-) `// not a comment`,
-    match // packet A { u8 x, }
-      Foo as
-len
-{42//
-:
-Z9_ , 	 //x
-    }
-,	}
-
-    ,	}
-packet/// triple
-	options1 {	@lengthOf(
-    A 
-) 
-roots @lengthOf(// packet A { u8 x, }
-	msg_type 
-)
-    `line1
-line2`
-
-,
-
-    int32 	 /// triple
-a1
-	`it's`,
-
-@calculatedFrom(
-""packet"" )
-	repeat
-
-    string
-T	,@lengthOf(
-i64_ )
-@calculatedFrom(
-
-""packet"" )
-	@tag(
-	007
-    ) 
-int16 asx @calculatedFrom( 
-""it's""
-    ) 	 //	t
-
-	`doc`  ,repeat  i32
-    charz	,
-metadata 	 // packet A { u8 x, }
-    `// not a comment` ,	}packet
-Logon
-{
-} options {
-}
-
-root
-packet 
-tag  {
-@lengthOf(
-    Logon)charz  {
-string  stringy
-
-`// not a comment`
-    ,  uint64
-int,
-
-    char	i64_
-`it's` 
-    // packet A { u8 x, }
-  // a // b
-    ,} , 
-    //	t
-      //
-	u8
-
-i64_
-    , zchar[ 
-1
-]
-    float , 
-}  /// triple")).
-Eval vm_compute in ("<<<M3757>>>" ++ check (runes_of_ascii "// c
-	packet
-	i8i8
-
-{}	packet  string_{ @rightPad
-
-    ( '\x00' //x
-    )	int Packet 
-,	// a // b
-@tag(
-    255)matchKey
-
-    ,chars@calculatedFrom(""packet""
-
-    )`
-`,
-_x @lengthOf( 
-u
-	),  @tag( // c
-
-	255 )
-	asx
-Foo
-
-,
-
-string roots
-, repeat
-    falsey
-    {  matchKey {
-
-    match
-    Pad
-as  i8i8  //x
-  {
-
-[ 
-00 ,
-
-    7
-
-    ]: u	,1
-: BodyLength, 	 // a // b
-
-""// no comment""  :metadata
-,
-""""
-    // @lengthOf(
-	  //
-	:
-
-    BodyLength
-/// triple
-	,
-	}
-, 
-} 
-,
-	A
-,
-    repeat
-	char 
-falsey
-,	}  ,// packet A { u8 x, }
-	_x  u 
-`it's`,  @leftPad
-    (	'\x00' )
-
-@calculatedFrom(""\n""
-	)
-
-match x_y_z	as  metadata
-{
-""CRC32""
-: packetx	// packet A { u8 x, }
-    	, ""packet"": 
-metadata
-1
-:
-string_ // c
-
-	,[  0
-
-    ,	// " ++ [128512]%N ++ runes_of_ascii " emoji
-  10  ] :  // packet A { u8 x, }
-  falsey 	 // " ++ [27880; 37322]%N ++ runes_of_ascii "
-		,
-    },
-
-char[]chars	@lengthOf(
-
-zchar/// triple
-	)  `say ""hi""` 
-,
-	} ")).
-Eval vm_compute in ("<<<M1266>>>" ++ check (runes_of_ascii "MetaData
-    //	t
-    i8i8  {
-    u8 string_ `crlf
-line` ,} root // trailing space 
-packet MetaDataX
-{ @rightPad
-    //
-    ( ' '
-)char[] MetaDataX
-@lengthOf(
-packetx	) ,//	t
-} packet packetx	{ @lengthOf(
-uint8x )//
-trueish`doc`	,
-@calculatedFrom(
-    ""a\""b""
-)
-    @rightPad
-    (' '
-) @calculatedFrom(  ""a\\""
-) repeat zchar[7/// triple
-]asx	, @tag( 1
-) char[3 ] string_
-    , string_
-@lengthOf(
-Logon// a // b
-) ,	@rightPad ( // " ++ [128512]%N ++ runes_of_ascii " emoji
-'\x00' )@leftPad
-//x
-// " ++ [128512]%N ++ runes_of_ascii " emoji
-(
-    // " ++ [128512]%N ++ runes_of_ascii " emoji
-    '0' )	repeat
-As
-    // packet A { u8 x, }
-    { trueish { leftPad{i64 crc
-,
-u8 zchar @lengthOf(
-    f32a
-)
-    // packet A { u8 x, }
-    ,
-tag @lengthOf( Z9_ )	`// not a comment` , Z9_  _x , }
-,// packet A { u8 x, }
-char[ 00] Foo `a\` , }	,} , @tag( 7 // packet A { u8 x, }
-) char[
-    4294967296 ] u128	, }
-// packet A { u8 x, }
-")).
-Eval vm_compute in ("<<<M4558>>>" ++ check (runes_of_ascii "root packet Packet {
-    @lengthOf(u128)
-    match Foo as metadata {
-        [""" ++ [28040; 24687]%N ++ runes_of_ascii """, ""a	b""] : Z9_,
-        ""packet"" : metadata,
-        [
-            0123456789, 10, 4294967296, ""1"", ""1"",
-            ""it's"", ""`tick`"", ""{,}""
-        ] : As,
-        0 : repeatCount,
-    },
-    match rootA as zchar {
-        7 : Logon,
-        ""a\\"" : body,
-        """ ++ [128512]%N ++ runes_of_ascii """ : T,
-        [
-            65535, 3, ""1"", ""a\\"", """ ++ [233]%N ++ runes_of_ascii "t" ++ [233]%N ++ runes_of_ascii """,
-            ""x y""
-        ] : len,
-        """ ++ [128512]%N ++ runes_of_ascii """ : o,
-    },
-    @lengthOf(options1)
-    A @calculatedFrom(""a\""b"") `" ++ [233]%N ++ runes_of_ascii "`,/// triple
-    @rightPad()
-    u64 i8i8 @calculatedFrom(""{,}"") `// not a comment`,
-    repeat pack {
-        char[] MetaDataX,
-    },
-    @lengthOf(roots)
-    @lengthOf(msg_type)
-    @calculatedFrom(""// no comment"")
-    char[3] string_ @lengthOf(pack) `doc`,
-}")).
-Eval vm_compute in ("<<<M4114>>>" ++ check (runes_of_ascii "packet x {
-    u16 msg_type @lengthOf(BodyLength),// trailing space 
-    @calculatedFrom(""" ++ [28040; 24687]%N ++ runes_of_ascii """)
-    repeat Header {
-        char[0123456789] repeatCount,
-        zchar[7] i64_ @calculatedFrom(""" ++ [28040; 24687]%N ++ runes_of_ascii """),
-        repeat T zchar `tab	here`,
-    },
-    uint8 body `doc`,
-    repeat char[] i8i8,
-    uint32 f32a @calculatedFrom(""`tick`""),
-    @rightPad(' ')
-    match rootA as matchKey {
-        42 : lengthOf,
-        // `tick` ""quote"" 'q'
-        ""// no comment"" : Z9_,
-        [1, ""a\\""] : len,
-        10 : trueish,
-    },
-    f64 Logon @lengthOf(T) `crlf
-    line`,
-    match float as i8i8 {
-        ""\n"" : i64_,
-    },
-    @lengthOf(u8x)
-    @leftPad('\x00')
-    char[007] body `it's`,
-    @leftPad('0')
-    string crc @calculatedFrom(""a\\"") `" ++ [28040; 24687; 31867; 22411]%N ++ runes_of_ascii "`,
-}")).
-Eval vm_compute in ("<<<M4321>>>" ++ check (runes_of_ascii "packet Packet {
-    asx @lengthOf(metadata) `line1
-    line2`,
-    @tag(0123456789)
-    repeat char tag,
-    BodyLength @calculatedFrom(""`tick`""),
-    @calculatedFrom(""\" ++ [233]%N ++ runes_of_ascii """)
-    tag @calculatedFrom(""" ++ [233]%N ++ runes_of_ascii "t" ++ [233]%N ++ runes_of_ascii """),
-    @leftPad()
-    match o as T {
-        ""CRC32"" : metadata,
-        [7, 0123456789, ""CRC32"", ""CRC32"", ""a\\""] : i8i8,
-        4294967296 : o,
-        [65535] : leftPad,
-        00 : charz,
-    },
-    string_ @calculatedFrom(""\n"") `u8 x,`,
-}
-
-root packet Foo {
-    @rightPad('0')
-    repeat msg_type string_,
-}
-
-root packet Z9_ {
-    @calculatedFrom(""1"")
-    string A,
-    repeat x zchar,
-    @tag(1)
-    @tag(0)
-    i64_ float `tab	here`,
-    repeat u8 _x ``,
-    lengthOf @calculatedFrom(""`tick`""),
-}")).
-Eval vm_compute in ("<<<M1282>>>" ++ check (runes_of_ascii "options { string_
-=
-0123456789 ; u=""" ++ [28040; 24687]%N ++ runes_of_ascii """ ; } options { f32a= 1
-// " ++ [27880; 37322]%N ++ runes_of_ascii "
-//x
-;}packet u8x{	float32 A@calculatedFrom( ""`tick`""
-    //x
-    ) ,i16 o
-    `" ++ [233]%N ++ runes_of_ascii "` ,int64 Logon	`
-`,@calculatedFrom( ""`tick`"") @tag(
-    //x
-    42 ) @leftPad
-    (	)
-    int8
-    // a // b
-    len
-    ,repeat char[3  ] // @lengthOf(
-crc , char[] Packet	@lengthOf( pack ) // trailing space 
-`" ++ [233]%N ++ runes_of_ascii "` // packet A { u8 x, }
-, /// triple
-}
-// @lengthOf(
-// @lengthOf(
-packet MetaDataX{ match u8x as Header{0 : body
-    //x
-    , [  ""\n""
-,""\n""
-// @lengthOf(
-/// triple
-, """ ++ [128512]%N ++ runes_of_ascii """
-, """ ++ [28040; 24687]%N ++ runes_of_ascii """	, 007// c
-]	:
-// `tick` ""quote"" 'q'
-//x
-leftPad, [ ""x y"" ] :
-// trailing space 
-//
-chars[ //	t
-10  ,3, ""`tick`"" ]: Header , }
-    , }
-")).
-Eval vm_compute in ("<<<M3596>>>" ++ check (runes_of_ascii "// top
-options
-    // c0
-{ // c1a
-  // c1b
-FixedStringPadChar // c2a
-  // c2b
-= // c3a
-  // c3b
-'0' // c4
-; // c5
-} // c6
-packet // c7
-Q
-    // c8
-{ // c9
-zchar[
-    // c10
-4 // c11a
+b // c11a
   // c11b
-] // c12
-z
-    // c13
-,
-    // c14
-@rightPad // c15
-( // c16a
-  // c16b
-'\x00' // c17a
-  // c17b
-) // c18
-char[ 3 // c20
-] // c21a
-  // c21b
-n
-    // c22
-, char[ // c24
-5 ]
-    // c26
-d // c27
-,
-    // c28
-} root // c30
-packet R // c32
-{ // c33
-Q
-    // c34
-, // c35
-zchar[ // c36
-8 // c37a
-  // c37b
-]
-    // c38
-top // c39a
-  // c39b
-, repeat // c41a
-  // c41b
-zchar[ // c42
-2 // c43a
-  // c43b
-] // c44
-zs // c45
-, // c46
-}
-    // c47
-")).
-Eval vm_compute in ("<<<M1028>>>" ++ check (runes_of_ascii "
-options { Packet=' ' BodyLength=
-65535 zchar	=
-'0'// @lengthOf(
-; lengthOf //x
-=
-    false ;}options {
-o
-= true ;
-Foo
-    = ""a\\"";} MetaData chars{
-    zchar[
-00
-// " ++ [128512]%N ++ runes_of_ascii " emoji
-//
-] // packet A { u8 x, }
-A ,
-Packet calculatedFrom
-    , falsey
-options1, int32 x_y_z, char[]
-    zchar
-// " ++ [128512]%N ++ runes_of_ascii " emoji
-// " ++ [128512]%N ++ runes_of_ascii " emoji
 , }
-    MetaData // " ++ [27880; 37322]%N ++ runes_of_ascii "
-_x { stringy f32a
-`u8 x,`  ,
-} packet f32a
-//
-// " ++ [27880; 37322]%N ++ runes_of_ascii "
-{
-    @calculatedFrom(""a\\"" )// " ++ [128512]%N ++ runes_of_ascii " emoji
-match a1
-as x_y_z
-{
-    [ """ ++ [233]%N ++ runes_of_ascii "t" ++ [233]%N ++ runes_of_ascii """ , """" ,""" ++ [128512]%N ++ runes_of_ascii """ , ""`tick`"" ,
-""x y"" , //	t
-""abc""
-// `tick` ""quote"" 'q'
-// " ++ [27880; 37322]%N ++ runes_of_ascii "
-,
-    ""\" ++ [233]%N ++ runes_of_ascii """ ,""packet""]	: int
-,
-    }	,
-//
-// c
-repeat uint16	f32a `crlf
-line` , }")).
-Eval vm_compute in ("<<<M221>>>" ++ check (runes_of_ascii "packet
-matchKey { match Header as chars
-{ [ """ ++ [233]%N ++ runes_of_ascii "t" ++ [233]%N ++ runes_of_ascii """ ,0 ]	: body
-,
-    [
-    42,10 ]
-    :msg_type
-,
-""" ++ [128512]%N ++ runes_of_ascii """
-: options1 ,7 :
-    roots ""\n"" :
-    // c
-    packetx,	} ,
-    zchar[
-0 ]
-A
-@lengthOf(  int )
-, char[] Header `
-` ,// trailing space 
-repeat
-    float { repeat
-o
-    , // `tick` ""quote"" 'q'
-repeat
-int32 x_y_z `
-` , }	,@tag( 0 ) u64 string_ @calculatedFrom(""`tick`"" ) // " ++ [27880; 37322]%N ++ runes_of_ascii "
-`two words` , calculatedFrom // " ++ [27880; 37322]%N ++ runes_of_ascii "
-{ matchKey
-//
-// packet A { u8 x, }
-, // packet A { u8 x, }
-rootA
-, } ,
-}
-    options // " ++ [128512]%N ++ runes_of_ascii " emoji
-{ chars =	"""" //
-;
-    As = true	; Foo =
-7	; lengthOf =  ""a\\"" }
-
-")).
-Eval vm_compute in ("<<<M377>>>" ++ check (runes_of_ascii "packet float { @leftPad ( ' ' )repeat
-metadata falsey
-,lengthOf matchKey , int32
-roots , int16 Pad@calculatedFrom( // " ++ [128512]%N ++ runes_of_ascii " emoji
-""\" ++ [233]%N ++ runes_of_ascii """)
-, // a // b
-lengthOf
-    @calculatedFrom( ""`tick`"")// c
-`" ++ [28040; 24687; 31867; 22411]%N ++ runes_of_ascii "` ,
-@lengthOf( metadata) i8i8
-,@rightPad(
-// packet A { u8 x, }
-//	t
-'0'
-) Foo ,
-    // trailing space 
-    @tag(
-10 //
-)chars	`
-`
-    , @tag( 7
-)
-    // " ++ [128512]%N ++ runes_of_ascii " emoji
-    @leftPad ( ) repeat zchar[ 255 ]
-u128
-, // c
-}
-    options {//	t
-msg_type =
-0	; // @lengthOf(
-u = ' ' x_y_z =65535 u128 // packet A { u8 x, }
-= char[] ; zchar	= zchar[ 3
-    ]
-; }
-
-")).
-Eval vm_compute in ("<<<M482>>>" ++ check (runes_of_ascii "options
-{	roots
-=
-true
-; MetaDataX =
-    3 ; trueish =10
-    } packet
-o
-    { @tag(
-    4294967296 // " ++ [128512]%N ++ runes_of_ascii " emoji
-) u8 u`
-` ,
-    Foo	, }
-    //	t
-    MetaData matchKey {  } packet
-zchar { float@lengthOf(Pad ) , @calculatedFrom(
-""" ++ [28040; 24687]%N ++ runes_of_ascii """ )
-@tag(007 )
-    repeat u16	string_ `" ++ [233]%N ++ runes_of_ascii "` ,@leftPad //	t
-(
-'\x00'
-    ) chars calculatedFrom	, @tag( 0	)	u128 @lengthOf(calculatedFrom ) `two words` , zchar[ 42 ] //	t
-i64_
-    @lengthOf(//
-u128) ``
-// trailing space 
-// c
-,Packet { repeat char[]
-    len
-, leftPad `line1
-line2` ,	}
-, }")).
-Eval vm_compute in ("<<<M937>>>" ++ check (runes_of_ascii "options
-{ u8x =  0123456789
-    ;
-    } packet rootA {
-    i8i8 repeatCount
-    ,}
-// " ++ [27880; 37322]%N ++ runes_of_ascii "
-// a // b
-root packet MetaDataX { // @lengthOf(
-Logon // " ++ [27880; 37322]%N ++ runes_of_ascii "
-{int64 i8i8 @lengthOf(  Header ) ,
-    //x
-    } ,}	root packet // @lengthOf(
-Pad {	roots { i16 Logon
-    @calculatedFrom( """ ++ [233]%N ++ runes_of_ascii "t" ++ [233]%N ++ runes_of_ascii """) , match As	as float
-{ [ ""packet"" //
-, ""// no comment""
-    ] : a1
-, 65535	: f32a, [
-    ""a\""b""
-    ,
-""// no comment"" , ""a	b"",
-    //
-    ""a	b"",
-""a\\""]
-:
-x , ""{,}""
-:	rootA
-,
-10
-:	msg_type
-, } ,
-}
-    ,
-} options {}
-")).
-Eval vm_compute in ("<<<M3620>>>" ++ check (runes_of_ascii "options {
-    StringPrefixLenType = u8;
-    ArrayPrefixLenType = u32;
-}
-packet Quote {
-    u32 Ref,
-    InNote74 {
-        u8 pad0,
-    },
-}
-packet Ack {
-    repeat string OrderId,
-}
-packet Logout {
-    zchar[7] venue,
-    char[12] Px,
-    string count,
-    char[] Tail,
-    char[] Qty,
-    Quote,
-}
-root packet Trade {
-    zchar[2] price,
-    u32 x,
-    u32 lastPx @lengthOf(Body),
-    match x as Body {
-        148 : Ack,
-        171 : Quote,
-        15 : Logout,
-    },
-}
-")).
-Eval vm_compute in ("<<<M3625>>>" ++ check (runes_of_ascii "  options{LittleEndian  = true  ; StringPrefixLenType
-= u16
-
-    ;
-	ArrayPrefixLenType 
-=u64;
-    }packet
-
-    Fill
-{
-	}packet	Logon {
-repeat
-char[
-
-3
-
-]Tail
-,
-zchar[6	] venue,	repeat
-string
-Side2
-    , }root
-packet Cancel	{ 
-char[]
-    Flags  ,
-	char[] OrderId
-,
-    zchar[
-
-6]
-msgKind , Fill
-	,
-char[] Acct
-,  u8
-
-    f1
-
-, match
-f1
-	as  Body
-
-    {
-	188
-
-    : Fill
-, 5
-	:
-Logon
-
-, 
-}  ,
-	u32
-	clOrdID
-@calculatedFrom(  ""CRC32""
-)  ,}
-
-")).
-Eval vm_compute in ("<<<M464>>>" ++ check (runes_of_ascii "options {zchar
-    =
-""packet"";o = ""CRC32"" ; len
-= """" ;
-}packet roots {// @lengthOf(
-char
-// `tick` ""quote"" 'q'
-//x
-f32a , } root packet
-    x { char[ 7 ]
-pack // " ++ [27880; 37322]%N ++ runes_of_ascii "
-,	}  packet x { zchar[
-// `tick` ""quote"" 'q'
-// @lengthOf(
-1
-    ] A
-@calculatedFrom( ""a\""b""
-/// triple
-// trailing space 
-) , repeat metadata
-Foo , u8x
-lengthOf ,A Header, @calculatedFrom( ""CRC32"" )
-@calculatedFrom(/// triple
-""""  )
-@leftPad ( '\x00' ) pack x_y_z,
-}
-")).
-Eval vm_compute in ("<<<M4324>>>" ++ check (runes_of_ascii "  root packet
-
-roots  {
-    falsey
-@calculatedFrom(  ""a\""b""
-
-),@lengthOf( A
-
-    )  Header
-@calculatedFrom(
-	""packet""  )
-    `u8 x,`
-	, @leftPad (' ' 
-)
-	@lengthOf(
-
-    calculatedFrom
-) 
-	    // `tick` ""quote"" 'q'
-// packet A { u8 x, }
-match rootA as x_y_z { 42  :  
-      //	t
-len, }	,
-	}
-
-    options  //x
-	{
-chars	=  // c
-    4294967296 ; BodyLength	=
-
-0123456789
-roots
-    =
-
-    ""a\""b""  ;  }  //
- 
-")).
-Eval vm_compute in ("<<<M704>>>" ++ check (runes_of_ascii "
-packet
-matchKey { @calculatedFrom( """ ++ [28040; 24687]%N ++ runes_of_ascii """
-) @lengthOf(
-lengthOf ) @calculatedFrom( """ ++ [28040; 24687]%N ++ runes_of_ascii """
-) match
-    /// triple
-    trueish as options1// trailing space 
-{ 42
-:matchKey,} , // " ++ [128512]%N ++ runes_of_ascii " emoji
-i64
-// trailing space 
-//x
-u8x , }MetaData float
-    { options1 u8x// " ++ [27880; 37322]%N ++ runes_of_ascii "
-, options1
-//
-//
-x	, string u `it's` , pack Header `u8 x,` ,
-char[] i64_ , } options{ } packet o  { } //
-MetaData
-    //	t
-    MetaDataX
-{  }
-")).
-Eval vm_compute in ("<<<M3308>>>" ++ check (runes_of_ascii "// top
-root
-    // c0
-packet
-    // c1
-matchKey
-    // c2
-{
-    // c3
-zchar[
-    // c4
-3
-    // c5
-]
-    // c6
-pack
-    // c7
-@calculatedFrom(
-    // c8
-""a	b""
-    // c9
-)
-    // c10
-`doc`
-    // c11
-,
-    // c12
-}
     // c13
-options
-    // c14
+root // c14
+packet // c15
+R // c16
 {
-    // c15
-}
-    // c16
-MetaData
     // c17
-A
-    // c18
-{
-    // c19
-int8
+FooBar // c18
+, // c19
+foo_bar
     // c20
-msg_type
-    // c21
-,
-    // c22
-}
-    // c23
-")).
-Eval vm_compute in ("<<<M175>>>" ++ check (runes_of_ascii "packet f32a
-{
-    repeat calculatedFrom u128//	t
-,
-    T @calculatedFrom( ""a\\"" ) `crlf
+, } ")).
+Eval vm_compute in ("<<<M29>>>" ++ check (runes_of_ascii "// `tick` ""quote"" 'q'
+MetaData
+    pack {
+string MetaDataX , //
+zchar[ 65535
+] i8i8, pack rootA	`say ""hi""` ,
+    string_ Header `crlf
 line` ,
-string /// triple
-charz, @leftPad (
-    //x
-    ) repeat
-pack // a // b
-T
-    ,	}MetaData
-charz { } packet	i8i8{A
-x ,match A
-as
-leftPad { ""abc""	: msg_type , ""a	b""
-    //	t
-    :
-    T }	,f64 i8i8
+int64
+string_ ,
+/// triple
+//	t
+char[]
+packetx
+,	} options
+    { trueish
+= ' '
+; i64_ =
+i16 pack = u16
+;
+len =false }	MetaData i64_{ }")).
+Eval vm_compute in ("<<<M725>>>" ++ check (runes_of_ascii "MetaData Header
+    {
+    char[ 1 ] As
     ,
-char charz`" ++ [233]%N ++ runes_of_ascii "`
-    // `tick` ""quote"" 'q'
-    ,} // " ++ [128512]%N ++ runes_of_ascii " emoji")).
-Eval vm_compute in ("<<<M1300>>>" ++ check (runes_of_ascii "packet
-Foo	{ @lengthOf(options1
-    // trailing space 
-    )  zchar[ 255
-] matchKey , string i64_// " ++ [128512]%N ++ runes_of_ascii " emoji
-,  @lengthOf( len ) char
-Z9_ // " ++ [27880; 37322]%N ++ runes_of_ascii "
+}  MetaData
+As { } root
+// a // b
+// `tick` ""quote"" 'q'
+packet packetx { // " ++ [27880; 37322]%N ++ runes_of_ascii "
+T  @lengthOf(
+    packetx) ,/// triple
+i8i8 {float
 `" ++ [233]%N ++ runes_of_ascii "`
-,
+    ,  char[] A
 // `tick` ""quote"" 'q'
 // a // b
-char[7 ]metadata @calculatedFrom( ""a\\"")`doc`
-    ,
-falsey ,@rightPad (
-'\x00'  )u64 rootA`crlf
-line`
-//x
-// " ++ [128512]%N ++ runes_of_ascii " emoji
-, @calculatedFrom( ""it's""
-    ) f64 i64_ ,}")).
-Eval vm_compute in ("<<<M4596>>>" ++ check (runes_of_ascii "root packet BodyLength {
-    uint16 As `crlf
-        line`,
-}
+,falsey lengthOf
+, }, repeat  roots ,}")).
+Eval vm_compute in ("<<<M3747>>>" ++ check (runes_of_ascii "options
+{ 
+i64_ = ""\n""
 
-packet A {
-    @calculatedFrom(""{,}"")
-    f32 trueish `// not a comment`,// `tick` ""quote"" 'q'
-}
+    ;BodyLength=float64
 
-packet i8i8 {
-    zchar[007] leftPad,
-    @tag(10)
-    tag @lengthOf(o),
-    float64 T,
-    @calculatedFrom(""a\""b"")
-    string uint8x @calculatedFrom(""abc"") `two words`,
-}")).
-Eval vm_compute in ("<<<M570>>>" ++ check (runes_of_ascii "options {
-i64_  = char[
-    65535 ]
-T = '0' } packet
-crc{@calculatedFrom(
-""abc"" )zchar[ 007 ] //
-msg_type
-@lengthOf( Header)  , repeat int8 string_
-`crlf
-line`
-,tag@lengthOf( BodyLength ) ,  }
-    // trailing space 
-    options
-    {
-    //
-    matchKey =
-// c
-// c
-""" ++ [128512]%N ++ runes_of_ascii """	; /// triple
-asx =' '	; crc
-    = true
-;
-    }")).
-Eval vm_compute in ("<<<M1961>>>" ++ check (runes_of_ascii "MetaData
-    u { }  options {
-// c
-// @lengthOf(
-float = int8 ;rootA =false ; As =	int16 // `tick` ""quote"" 'q'
-repeatCount
-    // trailing space 
-    =
-    int16
-; u8x u8x =
-    //	t
-    '\x00' ; } options	{
-    repeatCount
-= 0
-u128
-    //
-    = false ; i64_
-// trailing space 
-// `tick` ""quote"" 'q'
-= '0' ; //	t
-}
+i64_
+
+= false
+    ;} MetaData
+
+    Packet	{ uint16
+A
+
+`u8 x,`,  zchar[
+007	]
+    i64_
+
+    ,  char[007
+
+    ]
+
+chars , float64
+    x_y_z,  MetaDataX
+	stringy`// not a comment`
+,} MetaData
+msg_type 
+{ }
 ")).
-Eval vm_compute in ("<<<M2001>>>" ++ check (runes_of_ascii "MetaData
-    u { }  options {
-// c
-// @lengthOf(
-float = int8 ;rootA =false ; As =	int16 // `tick` ""quote"" 'q'
-repeatCount
-    // trailing space 
-    =
-    int16
-; u8x =
-    //	t
-    '\x00' ; } options	{
-    repeatCount
-= = 0
-u128
-    //
-    = false ; i64_
-// trailing space 
-// `tick` ""quote"" 'q'
-= '0' ; //	t
-}
-")).
-Eval vm_compute in ("<<<M1328>>>" ++ check (runes_of_ascii "MetaData Pad
-{	roots	f32a , char[ 10
-// trailing space 
+Eval vm_compute in ("<<<M1518>>>" ++ check (runes_of_ascii "packet
 //	t
-] u8x	, //	t
-calculatedFrom
-A , }
-packet leftPad	{ roots// " ++ [27880; 37322]%N ++ runes_of_ascii "
-@lengthOf(
-string_) `two words`
-,@tag(
-255
-)match o as options1	{ [
-    0 //
-, ""1""
-,
-""" ++ [128512]%N ++ runes_of_ascii """
-//x
-//	t
-,42 ]
-    :
-    //
-    i8i8
-    , } , /// triple
-repeatCount msg_type , }	options
-{
-    }")).
-Eval vm_compute in ("<<<M1997>>>" ++ check (runes_of_ascii "MetaData
-    u { }  options {
-// c
-// @lengthOf(
-float = int8 ;rootA =false ; As =	int16 // `tick` ""quote"" 'q'
-repeatCount
-    // trailing space 
-    =
-    int16
-; u8x =
-    //	t
-    '\x00' ; } options	{
-    =
-repeatCount 0
-u128
-    //
-    = false ; i64_
 // trailing space 
-// `tick` ""quote"" 'q'
-= '0' ; //	t
-}
-")).
-Eval vm_compute in ("<<<M2005>>>" ++ check (runes_of_ascii "MetaData
-    u { }  options {
+_x {
+// packet A { u8 x, }
 // c
-// @lengthOf(
-float = int8 ;rootA =false ; As =	int16 // `tick` ""quote"" 'q'
-repeatCount
-    // trailing space 
-    =
-    int16
-; u8x =
-    //	t
-    '\x00' ; } options	{
-    repeatCount
-= 
-u128
-    //
-    = false ; i64_
-// trailing space 
-// `tick` ""quote"" 'q'
-= '0' ; //	t
+char[
+3
+    ] u8x u8x @lengthOf(
+u8x ) , @calculatedFrom(""" ++ [128512]%N ++ runes_of_ascii """ // @lengthOf(
+)
+i16	Foo
+@lengthOf(	string_
+    )`doc`	, repeat	i64 metadata , @lengthOf( string_
+) i8 // c
+u  `line1
+line2`	,
 }
 ")).
-Eval vm_compute in ("<<<M1970>>>" ++ check (runes_of_ascii "MetaData
-    u { }  options {
-// c
-// @lengthOf(
-float = int8 ;rootA =false ; As =	int16 // `tick` ""quote"" 'q'
-repeatCount
-    // trailing space 
-    =
-    int16
-; u8x =
-    //	t
-     ; } options	{
-    repeatCount
-= 0
-u128
-    //
-    = false ; i64_
-// trailing space 
-// `tick` ""quote"" 'q'
-= '0' ; //	t
-}
-")).
-Eval vm_compute in ("<<<M1340>>>" ++ check (runes_of_ascii "  root
-// `tick` ""quote"" 'q'
-//
-packet
-    T
-    {	@rightPad (	) @calculatedFrom( ""it's""
-) int A, match
-    Packet as Packet { 0123456789 : u128 ,// c
-""a\\"" : Foo , 1:// @lengthOf(
-int , [
-    // " ++ [128512]%N ++ runes_of_ascii " emoji
-    7, 4294967296 , ""\n"" ,
-""abc""	,
-""abc"",
-""\" ++ [233]%N ++ runes_of_ascii """] : msg_type }, }
-    options
-{ zchar  =
-' ' ; }
-")).
-Eval vm_compute in ("<<<M3704>>>" ++ check (runes_of_ascii "// trailing space 
-root packet x_y_z {
-    @leftPad()
-    repeat rootA {
-        BodyLength body `
-                `,
-        u8 leftPad @calculatedFrom(""1"") ``,
-        char[007] i64_,
-    },
-    u32 zchar `line1
-        line2`,
-    char[10] i8i8 @calculatedFrom(""" ++ [233]%N ++ runes_of_ascii "t" ++ [233]%N ++ runes_of_ascii """),
-}
-
-packet a1 {
-}")).
-Eval vm_compute in ("<<<M556>>>" ++ check (runes_of_ascii "options {
-    uint8x= 3	;
-    crc= 42 Logon  = '\x00' falsey= false }  root
-    packet zchar {int16// trailing space 
-u, } root packet
-Header {@rightPad ( ' ' )@lengthOf( a1 )repeat body, zchar[
-65535 ] string_ // `tick` ""quote"" 'q'
-@lengthOf( MetaDataX ) , // @lengthOf(
-}
-")).
-Eval vm_compute in ("<<<M3876>>>" ++ check (runes_of_ascii "packet MDSnapshotZZ {
-    u8 a,
-}
-
-packet OrderACK {
-    u16 b,
-}
-
-packet HTTPServerInfo {
-    string s,
-}
-
-root packet FIXMsg {
-    u8 KType,
-    MDSnapshotZZ,
-    repeat OrderACK,
-    match KType as Body {
-        1 : HTTPServerInfo,
-        2 : OrderACK,
-    },
-}")).
-Eval vm_compute in ("<<<M1635>>>" ++ check (runes_of_ascii "packet
+Eval vm_compute in ("<<<M1633>>>" ++ check (runes_of_ascii "packet
 //	t
 // trailing space 
 _x {
@@ -2117,19 +1859,19 @@ i16	Foo
 @lengthOf(	string_
     )`doc`	, repeat	i64 metadata , @lengthOf( string_
 ) i8 // c
-@leftPad  `line1
+u u  `line1
 line2`	,
 }
 ")).
-Eval vm_compute in ("<<<M1520>>>" ++ check (runes_of_ascii "packet
+Eval vm_compute in ("<<<M1509>>>" ++ check (runes_of_ascii "packet
 //	t
 // trailing space 
 _x {
 // packet A { u8 x, }
 // c
 char[
-3
-    ] uint8 @lengthOf(
+]
+    3 u8x @lengthOf(
 u8x ) , @calculatedFrom(""" ++ [128512]%N ++ runes_of_ascii """ // @lengthOf(
 )
 i16	Foo
@@ -2140,29 +1882,10 @@ u  `line1
 line2`	,
 }
 ")).
-Eval vm_compute in ("<<<M1671>>>" ++ check (runes_of_ascii "packet
+Eval vm_compute in ("<<<M1670>>>" ++ check (runes_of_ascii "packet
 //	t
 // trailing space 
-_x {
-// packet A { u8 x, }
-// c
-char[
-3
-    ] u8x @lengthOf(
-u8x ) , @calculatedFrom(""" ++ [128512]%N ++ runes_of_ascii """ // @lengthOf(
-)
-i16	" ++ [252]%N ++ runes_of_ascii "ber
-@lengthOf(	string_
-    )`doc`	, repeat	i64 metadata , @lengthOf( string_
-) i8 // c
-u  `line1
-line2`	,
-}
-")).
-Eval vm_compute in ("<<<M1604>>>" ++ check (runes_of_ascii "packet
-//	t
-// trailing space 
-_x {
+x" ++ [178]%N ++ runes_of_ascii " {
 // packet A { u8 x, }
 // c
 char[
@@ -2172,103 +1895,89 @@ u8x ) , @calculatedFrom(""" ++ [128512]%N ++ runes_of_ascii """ // @lengthOf(
 )
 i16	Foo
 @lengthOf(	string_
-    )`doc`	, repeat	i64 , metadata @lengthOf( string_
+    )`doc`	, repeat	i64 metadata , @lengthOf( string_
 ) i8 // c
 u  `line1
 line2`	,
 }
 ")).
-Eval vm_compute in ("<<<M1284>>>" ++ check (runes_of_ascii "/// triple
-packet BodyLength { @calculatedFrom( ""packet"" ) //x
-char[]
-    options1 @calculatedFrom( ""\" ++ [233]%N ++ runes_of_ascii """ )
-,zchar[ 255 // " ++ [128512]%N ++ runes_of_ascii " emoji
-] metadata , }options	{ int =	'\x00'; stringy =
-false
-    T
-    // " ++ [128512]%N ++ runes_of_ascii " emoji
-    =
-    0 trueish
-    =
-    //	t
-    10
-}
-")).
-Eval vm_compute in ("<<<M1118>>>" ++ check (runes_of_ascii "MetaData
-tag
-    // `tick` ""quote"" 'q'
-    { u16
-    BodyLength , packetx
-f32a
-//
+Eval vm_compute in ("<<<M1562>>>" ++ check (runes_of_ascii "packet
+//	t
+// trailing space 
+_x {
 // packet A { u8 x, }
-, } root packet	Packet {
-    char[ 42 ]
-    // c
-    A //x
-, } packet calculatedFrom { repeat rootA { char[ 0123456789
-    ] u128,}
-, }
-")).
-Eval vm_compute in ("<<<M4116>>>" ++ check (runes_of_ascii "
-root 
-packet // `tick` ""quote"" 'q'
-metadata {
-
-uint64// @lengthOf(
-	rootA
-`it's`  ,} packet  Header {
-} 
-options
-
-{
-
-    Z9_  // @lengthOf(
-      =
-	255
-
-    ;
-
-metadata=	int32;
-trueish=
-	' '
-;i64_ ='\x00'	stringy  =
-
-    00 
+// c
+char[
+3
+    ] u8x @lengthOf(
+u8x ) , @calculatedFrom(""" ++ [128512]%N ++ runes_of_ascii """ // @lengthOf(
+)
+i16	
+@lengthOf(	string_
+    )`doc`	, repeat	i64 metadata , @lengthOf( string_
+) i8 // c
+u  `line1
+line2`	,
 }
 ")).
-Eval vm_compute in ("<<<M3899>>>" ++ check (runes_of_ascii "MetaData a1 {
-    u8 u8x,
+Eval vm_compute in ("<<<M1522>>>" ++ check (runes_of_ascii "packet
+//	t
+// trailing space 
+_x {
+// packet A { u8 x, }
+// c
+char[
+3
+    ] u8x 
+u8x ) , @calculatedFrom(""" ++ [128512]%N ++ runes_of_ascii """ // @lengthOf(
+)
+i16	Foo
+@lengthOf(	string_
+    )`doc`	, repeat	i64 metadata , @lengthOf( string_
+) i8 // c
+u  `line1
+line2`	,
 }
-
-options {
-    float = '0';
+")).
+Eval vm_compute in ("<<<M1132>>>" ++ check (runes_of_ascii "packet //
+x
+    { } packet lengthOf{  repeat a1 { lengthOf @lengthOf( x_y_z ) ,// `tick` ""quote"" 'q'
+zchar[ 0123456789
+    ]Packet , leftPad
+    u,
+    zchar[1 ] Foo
     // @lengthOf(
-    pack = string;
-}
-
-MetaData packetx {
-    tag Foo `
-        `,
-    uint8x asx,
-    uint16 body,
-    T x,
-    float a1 `
-        `,
-    matchKey crc,
-}")).
-Eval vm_compute in ("<<<M3666>>>" ++ check (runes_of_ascii "packet _x {
-    // packet A { u8 x, }
-    // c
-    char[3] u8x @lengthOf(u8x),
-    @calculatedFrom(""" ++ [128512]%N ++ runes_of_ascii """)
-    i16 Foo @lengthOf(string_) `doc`,
-    repeat i64 metadata,
-    @lengthOf(string_)
-    i8 u `line1
-    line2`,
-}")).
-Eval vm_compute in ("<<<M1682>>>" ++ check (runes_of_ascii "options { trueish trueish = ""`tick`"" ; string_= """ ++ [233]%N ++ runes_of_ascii "t" ++ [233]%N ++ runes_of_ascii """
+    @calculatedFrom(""`tick`""// " ++ [27880; 37322]%N ++ runes_of_ascii "
+) , }
+,  } 	 ")).
+Eval vm_compute in ("<<<M493>>>" ++ check (runes_of_ascii "options { }// a // b
+packet BodyLength {zchar[
+0123456789
+] packetx
+`doc`
+, repeat
+msg_type `// not a comment`
+// @lengthOf(
+// c
+,	zchar[00 ] len, chars
+@lengthOf(  chars ) `a\`	, }
+MetaData
+_x {	asx MetaDataX `{ , }`, }
+")).
+Eval vm_compute in ("<<<M100>>>" ++ check (runes_of_ascii "
+options{ calculatedFrom = false ; } packet i64_
+{
+    body,
+//	t
+//x
+}/// triple
+options { float
+=	true ;// @lengthOf(
+charz =// a // b
+char[65535 ]; u=/// triple
+true ;metadata = ""\" ++ [233]%N ++ runes_of_ascii """  matchKey = '\x00'
+    } // " ++ [27880; 37322]%N)).
+Eval vm_compute in ("<<<M1673>>>" ++ check (runes_of_ascii "options options { trueish = ""`tick`"" ; string_= """ ++ [233]%N ++ runes_of_ascii "t" ++ [233]%N ++ runes_of_ascii """
     // c
     } root
     packet body { stringy @calculatedFrom(
@@ -2280,30 +1989,16 @@ packet Logon {
 u16 string_ `u8 x,` ,
 }
 ")).
-Eval vm_compute in ("<<<M4016>>>" ++ check (runes_of_ascii "  MetaData
-
-    Header
-
-{
-A
-    float
-	, } 
-MetaData Pad
-
-{  // trailing space 
-    string  float	`a\` ,char[]
-
-    tag
-, 
-	    // packet A { u8 x, }
-	matchKey 
-BodyLength
-
-,
-	char[
-65535
-]
-	Header , 
+Eval vm_compute in ("<<<M1732>>>" ++ check (runes_of_ascii "options { trueish = ""`tick`"" ; string_= """ ++ [233]%N ++ runes_of_ascii "t" ++ [233]%N ++ runes_of_ascii """
+    // c
+    } root
+    packet body body { stringy @calculatedFrom(
+""a	b"" ) `line1
+line2` , }
+packet Logon {
+    @leftPad(
+    ' ' ) //	t
+u16 string_ `u8 x,` ,
 }
 ")).
 Eval vm_compute in ("<<<M1839>>>" ++ check (runes_of_ascii "options { trueish = ""`tick`"" ; string_= """ ++ [233]%N ++ runes_of_ascii "t" ++ [233]%N ++ runes_of_ascii """
@@ -2330,52 +2025,59 @@ packet Logon {
 u16 string_ `u8 x,` ,
 }
 ")).
-Eval vm_compute in ("<<<M1149>>>" ++ check (runes_of_ascii "MetaData // packet A { u8 x, }
-lengthOf
-{ msg_type
-// `tick` ""quote"" 'q'
-// " ++ [128512]%N ++ runes_of_ascii " emoji
-metadata , float32 matchKey`" ++ [28040; 24687; 31867; 22411]%N ++ runes_of_ascii "`//
-,
-int32 body , zchar[ 0123456789
-    ] uint8x  , float32 int , int16 body , } //	t")).
-Eval vm_compute in ("<<<M1855>>>" ++ check (runes_of_ascii "options { trueish = ""`tick`"" ; a" ++ [769]%N ++ runes_of_ascii "b= """ ++ [233]%N ++ runes_of_ascii "t" ++ [233]%N ++ runes_of_ascii """
+Eval vm_compute in ("<<<M865>>>" ++ check (runes_of_ascii "packet calculatedFrom
+    { @calculatedFrom(
+""{,}"" )
+    // c
+    @tag(
+    65535 ) f32 Packet @lengthOf(o )
+    , @calculatedFrom(  ""`tick`"" ) uint32 MetaDataX  @calculatedFrom(""it's""  ) ``,
+} // a // b")).
+Eval vm_compute in ("<<<M3704>>>" ++ check (runes_of_ascii "options {
+    u8x = zchar[42];
+    roots = """ ++ [233]%N ++ runes_of_ascii "t" ++ [233]%N ++ runes_of_ascii """;
+    calculatedFrom = '0'
+    As = ""packet"";
+}
+
+options {
+    falsey = 10;
+    A = '\x00';
+    leftPad = """ ++ [233]%N ++ runes_of_ascii "t" ++ [233]%N ++ runes_of_ascii """;
+    crc = u16;
+    As = 255
+}/// triple")).
+Eval vm_compute in ("<<<M1791>>>" ++ check (runes_of_ascii "options { trueish = ""`tick`"" ; string_= """ ++ [233]%N ++ runes_of_ascii "t" ++ [233]%N ++ runes_of_ascii """
     // c
     } root
     packet body { stringy @calculatedFrom(
 ""a	b"" ) `line1
 line2` , }
 packet Logon {
-    @leftPad(
+    (
     ' ' ) //	t
 u16 string_ `u8 x,` ,
 }
 ")).
-Eval vm_compute in ("<<<M776>>>" ++ check (runes_of_ascii "  options // c
-{x_y_z =
-    f64 } // " ++ [27880; 37322]%N ++ runes_of_ascii "
+Eval vm_compute in ("<<<M3590>>>" ++ check (runes_of_ascii "// top
+packet // c0
+orderItem // c1a
+  // c1b
+{ u8 // c3
+a // c4
+, } // c6
 root
-    packet As {@tag( 255	)string BodyLength ,
-    @leftPad	(
-) match Foo as
-    body {007: i8i8 , 42 :
-metadata
-    , // @lengthOf(
-"""" :
-body, }
-, }
-
-")).
-Eval vm_compute in ("<<<M1825>>>" ++ check (runes_of_ascii "options { trueish = ""`tick`"" ; string_= """ ++ [233]%N ++ runes_of_ascii "t" ++ [233]%N ++ runes_of_ascii """
-    // c
-    } root
-    packet body { stringy @calculatedFrom(
-""a	b"" ) `line1
-line2` , }
-packet Logon {
-    @leftPad(
-    ' ' ) //	t
-u16 string_")).
+    // c7
+packet // c8a
+  // c8b
+newOrder // c9
+{
+    // c10
+orderItem , // c12a
+  // c12b
+u8
+    // c13
+x , } ")).
 Eval vm_compute in ("<<<M3361>>>" ++ check (runes_of_ascii "// top
 packet
     // c0
@@ -2402,343 +2104,417 @@ Logon
 }
     // c11
 ")).
-Eval vm_compute in ("<<<M4544>>>" ++ check (runes_of_ascii "packet A {
-    match k as n {
-        [
-            ""a"", ""bb"", ""c c"", ""d"", ""e"",
-            ""f"", ""g"", ""h"", ""i"", ""j"",
-            ""k"", ""l""
-        ] : B,
-        2 : C,
-    },
-}")).
-Eval vm_compute in ("<<<M4177>>>" ++ check (runes_of_ascii "packet A {
-    match k as n {
-        [
-            007, 66, 9, 12, ""a"",
-            ""bb"", ""d"", ""e"", ""g"", ""h"",
-            ""j"", ""k""
-        ] : B,
-        2 : C,
-    },
-}")).
-Eval vm_compute in ("<<<M2417>>>" ++ check (runes_of_ascii "// c
-packet x { @lengthOf( metadata ) repeat lengthOf lengthOf
-,a1{
-trueish	,// c
-repeat//	t
-MetaDataX , } , zchar[
-    42	] rootA // `tick` ""quote"" 'q'
-,
-    }
-")).
-Eval vm_compute in ("<<<M4182>>>" ++ check (runes_of_ascii "
-root
-packet matchKey
-	{
-
-    zchar[  3
-]
-
-pack  // c
-  	@calculatedFrom(""a	b""	)
-`doc` 
-,
-	}
-
-    options
-
+Eval vm_compute in ("<<<M3897>>>" ++ check (runes_of_ascii "
+packet
+	Z9_
     { }
-MetaData A
-	{	int8
-	msg_type
+    packet
+    f32a
+{ repeat
+metadata 
 
-,
-}
+    //	t
+  // " ++ [27880; 37322]%N ++ runes_of_ascii "
+	  `
+`
+
+    ,
+charz 	 // @lengthOf(
+  @calculatedFrom(
+
+    ""a\\"")
+	,
+
+    i64
+
+charz, }
 ")).
-Eval vm_compute in ("<<<M2344>>>" ++ check (runes_of_ascii "// c
-packet x {'1' @lengthOf( metadata ) repeat lengthOf
-,a1{
-trueish	,// c
-repeat//	t
-MetaDataX , } , zchar[
-    42	] rootA // `tick` ""quote"" 'q'
+Eval vm_compute in ("<<<M1377>>>" ++ check (runes_of_ascii "packet trueish { Header repeatCount
 ,
-    }
+    repeat metadata //	t
+tag // packet A { u8 x, }
+, //	t
+@lengthOf( calculatedFrom	) MetaDataX @lengthOf( packetx ) // a // b
+, }
 ")).
-Eval vm_compute in ("<<<M2312>>>" ++ check (runes_of_ascii "// c
-packet x { @lengthOf( metadata ) repeat ,
-lengthOf a1{
-trueish	,// c
-repeat//	t
-MetaDataX , } , zchar[
-    42	] rootA // `tick` ""quote"" 'q'
-,
-    }
+Eval vm_compute in ("<<<M4228>>>" ++ check (runes_of_ascii "  // c
+	packet 
+x
+{@lengthOf( metadata
+)repeat
+lengthOf
+	,a1 
+{  trueish ,  // c
+	//	t
+    MetaDataX
+	, },zchar[
+
+    42  ]
+rootA  // `tick` ""quote"" 'q'
+  ,  }
 ")).
-Eval vm_compute in ("<<<M2330>>>" ++ check (runes_of_ascii "// c
-packet x { @lengthOf( metadata ) repeat lengthOf
-,a1{
-trueish	,// c
-repeat//	t
-, MetaDataX } , zchar[
-    42	] rootA // `tick` ""quote"" 'q'
-,
-    }
-")).
-Eval vm_compute in ("<<<M2339>>>" ++ check (runes_of_ascii "// c
-packet x { @lengthOf( metadata ) repeat lengthOf
-,a1{
-trueish	,// c
-repeat//	t
-MetaDataX , }  zchar[
-    42	] rootA // `tick` ""quote"" 'q'
-,
-    }
-")).
-Eval vm_compute in ("<<<M2161>>>" ++ check (runes_of_ascii "options{
+Eval vm_compute in ("<<<M1006>>>" ++ check (runes_of_ascii "options {
+    calculatedFrom //x
+=float64; x_y_z = 00 } packet roots { @lengthOf( trueish)  zchar[
+// trailing space 
+// c
+42  ] charz , } MetaData Header {  }")).
+Eval vm_compute in ("<<<M2145>>>" ++ check (runes_of_ascii "options{
 _x
 = true
 } options
 { o	= /// triple
 false
     ; chars
-= ""\n"" } root Pad	packet
+= ""\n"" ""\n"" } root packet	Pad
 /// triple
 // packet A { u8 x, }
 {	chars
     // a // b
     ,}")).
-Eval vm_compute in ("<<<M398>>>" ++ check (runes_of_ascii "root packet chars {
-@lengthOf( a1
-// packet A { u8 x, }
-//	t
-) Z9_ msg_type `it's` , @lengthOf(	calculatedFrom ) //
-repeat calculatedFrom `{ , }`
-, }")).
-Eval vm_compute in ("<<<M3724>>>" ++ check (runes_of_ascii "
-root  packet Foo
-
-{@rightPad	(
-'\x00'
-    )
-Header  
-      // " ++ [27880; 37322]%N ++ runes_of_ascii "
-    	Pad  `tab	here`
-    ,
-	@rightPad
-( '\x00'
-	)  zchar[ 1
-
-    ] x_y_z  ,  }")).
-Eval vm_compute in ("<<<M2371>>>" ++ check (runes_of_ascii "// c
-packet x { } metadata ) repeat lengthOf
-,a1{
-trueish	,// c
-repeat//	t
-MetaDataX , } , zchar[
-    42	] rootA // `tick` ""quote"" 'q'
-,
-    }
-")).
-Eval vm_compute in ("<<<M3809>>>" ++ check (runes_of_ascii "packet
-Z9_  {  @tag(
-00
-) @tag(	7
-
-    )
-@lengthOf( 
-    //x
-		Logon) 
-zchar[ 0123456789	] x_y_z@calculatedFrom(
-
-    ""a\\""
-    ) 
-, }")).
-Eval vm_compute in ("<<<M564>>>" ++ check (runes_of_ascii "MetaData options1  { lengthOf As , char[ 255
-]crc
-    , char[] leftPad , As
-//	t
-//
-leftPad , uint16 u128 , f32 //
-x `{ , }` ,
-}
-//	t
-")).
-Eval vm_compute in ("<<<M298>>>" ++ check (runes_of_ascii "MetaData  metadata
-{	char[65535]	x ,
-    // c
-    char[]
-    u128, pack Z9_ , }
-    packet // " ++ [27880; 37322]%N ++ runes_of_ascii "
-a1{ repeat float repeatCount, }
-")).
-Eval vm_compute in ("<<<M1471>>>" ++ check (runes_of_ascii "
-packet
-    falsey { Header@calculatedFrom(""packet""  ) , char[
-    0123456789 ] @leftpadpacketx
-    , } // `tick` ""quote"" 'q'")).
-Eval vm_compute in ("<<<M807>>>" ++ check (runes_of_ascii "options { }
-options {
-pack =false; Z9_//
-= false ;} packet Pad { }
-packet u8x
-{ repeat// " ++ [128512]%N ++ runes_of_ascii " emoji
-matchKey packetx
-, } //x")).
-Eval vm_compute in ("<<<M3323>>>" ++ check (runes_of_ascii "root packet matchKey { zchar[ 3
-// c
-] pack @calculatedFrom( ""a	b"" ) `doc` , } options { } MetaData A { int8 msg_type , }")).
-Eval vm_compute in ("<<<M3355>>>" ++ check (runes_of_ascii "root packet matchKey { zchar[ 3 ] pack @calculatedFrom( ""a	b"" ) `doc` , } options { } MetaData A { int8 msg_type
-// c
-, }")).
-Eval vm_compute in ("<<<M1478>>>" ++ check (runes_of_ascii "
-packet
-    falsey { Header@calcul" ++ [8232]%N ++ runes_of_ascii "atedFrom(""packet""  ) , char[
-    0123456789 ] packetx
-    , } // `tick` ""quote"" 'q'")).
-Eval vm_compute in ("<<<M3957>>>" ++ check (runes_of_ascii "
-packet
-
-B{	u8 
-a
-	, } root 
-packet P
-    {
-	u8
-K,u8
-
-L
-
-    @lengthOf( Body	)
-
-,
-match	K	as  Body{1 :  B,  } ,}
-
-")).
-Eval vm_compute in ("<<<M4447>>>" ++ check (runes_of_ascii "// top
-MetaData float {
-    float64 charz `
-    `,
-}
-
-root packet chars {
-    @rightPad('0')
-    // c15
-    Foo,
-}")).
-Eval vm_compute in ("<<<M4432>>>" ++ check (runes_of_ascii "
-options {
-
-options1
-    = char[
-	00 ]
-    ;
-	len =
-    """ ++ [128512]%N ++ runes_of_ascii """	;
-a1=
-
-    42
-Header
-=
-' '
-	}
-packet Foo
-{
-
-}
-")).
-Eval vm_compute in ("<<<M2994>>>" ++ check (runes_of_ascii "packet A {
-  match k as n {
-    [""a"", 22, ""c c"", 4, ""e"", 66, ""g"", 8, ""i"", 10, ""k"", 12] : B,
-    2 : C
-  },
-}")).
-Eval vm_compute in ("<<<M505>>>" ++ check (runes_of_ascii "options // a // b
-{
-    crc = '0'  ;_x=""a\""b""
-trueish
-    = char[1  ] charz// c
-= 00 ;As =// c
-""a\""b"" }
-")).
-Eval vm_compute in ("<<<M2951>>>" ++ check (runes_of_ascii "packet A {
-  match k as n {
-    [""a"", ""bb"", ""c c"", ""d"", ""e"", ""f"", ""g"", ""h"", ""i""] : B,
-    2 : C
-  },
-}")).
-Eval vm_compute in ("<<<M3034>>>" ++ check (runes_of_ascii "packet A {
-    Inner {
-        u8 x `x
-`,
-        Deep {
-            u8 y `x
-`,
-        },
-    },
-}")).
-Eval vm_compute in ("<<<M2421>>>" ++ check (runes_of_ascii "// c
+Eval vm_compute in ("<<<M2423>>>" ++ check (runes_of_ascii "// c
 packet x { @lengthOf( metadata ) repeat lengthOf
 ,a1{
 trueish	,// c
 repeat//	t
-MetaDataX ,")).
-Eval vm_compute in ("<<<M2970>>>" ++ check (runes_of_ascii "packet A {
+MetaDataX , u16 , zchar[
+    42	] rootA // `tick` ""quote"" 'q'
+,
+    }
+")).
+Eval vm_compute in ("<<<M2185>>>" ++ check (runes_of_ascii "options{
+_x
+= true
+} options
+{ o	= /// triple
+false
+    ; chars
+= ""\n"" } root packet	Pad
+/// triple
+// packet A { u8 x, }
+{	chars
+    // a // b
+    ,} }")).
+Eval vm_compute in ("<<<M2196>>>" ++ check (runes_of_ascii "options{
+_x
+= true
+} options
+{ o	= /// triple
+false
+" ++ [0]%N ++ runes_of_ascii "    ; chars
+= ""\n"" } root packet	Pad
+/// triple
+// packet A { u8 x, }
+{	chars
+    // a // b
+    ,}")).
+Eval vm_compute in ("<<<M2132>>>" ++ check (runes_of_ascii "options{
+_x
+= true
+} options
+{ o	= /// triple
+false
+    ] chars
+= ""\n"" } root packet	Pad
+/// triple
+// packet A { u8 x, }
+{	chars
+    // a // b
+    ,}")).
+Eval vm_compute in ("<<<M2149>>>" ++ check (runes_of_ascii "options{
+_x
+= true
+} options
+{ o	= /// triple
+false
+    ; chars
+= ""\n""  root packet	Pad
+/// triple
+// packet A { u8 x, }
+{	chars
+    // a // b
+    ,}")).
+Eval vm_compute in ("<<<M4536>>>" ++ check (runes_of_ascii "
+packet
+A {	match
+
+    k
+    as n {
+
+    [ 1
+, ""bb"" 
+,
+	007 ,""d"" , 5
+	,
+""f"",
+7 , 
+""h"" , 9
+,
+
+""j""
+,
+	11
+
+]
+
+:	B 
+2
+:
+	C
+
+    }	,
+
+    }
+")).
+Eval vm_compute in ("<<<M4293>>>" ++ check (runes_of_ascii "packet
+T
+{
+	@lengthOf( // trailing space 
+  matchKey // packet A { u8 x, }
+
+) match u
+
+    as
+crc  {[""it's"", ""CRC32""
+    ,	3  ] 
+:Z9_ ,  }  ,}
+
+")).
+Eval vm_compute in ("<<<M594>>>" ++ check (runes_of_ascii "packet
+i8i8 {int32 As, options1{
+    repeat
+int{
+    //
+    uint16
+u, // a // b
+zchar`say ""hi""`
+// " ++ [128512]%N ++ runes_of_ascii " emoji
+//	t
+,
+char[] trueish , }, } ,
+}")).
+Eval vm_compute in ("<<<M788>>>" ++ check (runes_of_ascii "MetaData //x
+matchKey {u calculatedFrom, } root packet u128 {string BodyLength @lengthOf( u8x ) , int @lengthOf( f32a ) `" ++ [28040; 24687; 31867; 22411]%N ++ runes_of_ascii "`
+    , } 	 ")).
+Eval vm_compute in ("<<<M4326>>>" ++ check (runes_of_ascii "packet 
+A
+
+{	match  k as n { [
+
+    ""a""
+,
+22  ,""c c""
+	,
+	4 , ""e""
+,	66,
+""g""
+
+    , 8	,
+""i""
+
+,
+	10
+
+] :
+	B
+    ,2	:	C
+	}
+
+,
+	} ")).
+Eval vm_compute in ("<<<M787>>>" ++ check (runes_of_ascii "packet MetaDataX
+    //
+    { @calculatedFrom( ""it's""
+    )	repeat int8 u128
+// packet A { u8 x, }
+//	t
+`// not a comment`
+, }")).
+Eval vm_compute in ("<<<M1319>>>" ++ check (runes_of_ascii "// `tick` ""quote"" 'q'
+options { i8i8
+=
+    // @lengthOf(
+    ""{,}""  ;
+calculatedFrom
+// " ++ [128512]%N ++ runes_of_ascii " emoji
+// trailing space 
+=42 ;
+}")).
+Eval vm_compute in ("<<<M3317>>>" ++ check (runes_of_ascii "root packet matchKey
+// c
+{ zchar[ 3 ] pack @calculatedFrom( ""a	b"" ) `doc` , } options { } MetaData A { int8 msg_type , }")).
+Eval vm_compute in ("<<<M3349>>>" ++ check (runes_of_ascii "root packet matchKey { zchar[ 3 ] pack @calculatedFrom( ""a	b"" ) `doc` , } options { } MetaData A
+// c
+{ int8 msg_type , }")).
+Eval vm_compute in ("<<<M4273>>>" ++ check (runes_of_ascii "
+MetaData
+    body{
+i64  pack  
+      // c
+		`it's`, }
+
+    packet
+
+stringy
+	{
+
+    int16
+	calculatedFrom
+	,
+}
+")).
+Eval vm_compute in ("<<<M1429>>>" ++ check (runes_of_ascii "
+packet
+    falsey { Header@calculatedFrom(""packet""  , ) char[
+    0123456789 ] packetx
+    , } // `tick` ""quote"" 'q'")).
+Eval vm_compute in ("<<<M4059>>>" ++ check (runes_of_ascii "MetaData matchKey {
+    char[255] Pad `it's`,
+    u8 x_y_z,
+    i64_ packetx `tab	here`,
+    trueish zchar `it's`,
+}")).
+Eval vm_compute in ("<<<M961>>>" ++ check (runes_of_ascii "
+options{ Pad
+=zchar[
+    10
+    ]  ;a1 //
+=
+    ""1""	stringy
+=
+""{,}""
+;
+uint8x='0' BodyLength =
+    1 ; //	t
+}")).
+Eval vm_compute in ("<<<M213>>>" ++ check (runes_of_ascii "root packet repeatCount
+// c
+// " ++ [128512]%N ++ runes_of_ascii " emoji
+{
+msg_type// `tick` ""quote"" 'q'
+{
+float64 lengthOf
+`" ++ [233]%N ++ runes_of_ascii "`,
+}
+    ,  }")).
+Eval vm_compute in ("<<<M3983>>>" ++ check (runes_of_ascii "options {
+    stringy = '0';
+    body = ""// no comment"";
+    pack = char[]
+}
+
+options {
+    x = 65535
+}//x")).
+Eval vm_compute in ("<<<M4345>>>" ++ check (runes_of_ascii "options {
+    options1 = uint64;
+}
+
+root packet T {
+    MetaDataX `// not a comment`,
+}
+
+packet crc {
+}")).
+Eval vm_compute in ("<<<M992>>>" ++ check (runes_of_ascii "packet BodyLength {
+    uint16 tag // packet A { u8 x, }
+, uint8 Header @lengthOf(
+    chars )
+, }
+")).
+Eval vm_compute in ("<<<M3535>>>" ++ check (runes_of_ascii "  packet
+    Inner
+
+    {	u8
+
+    a
+
+    ,  }	root packet
+
+P
+{ Inner	ref_obj ,
+	u8
+
+x
+, }
+")).
+Eval vm_compute in ("<<<M4188>>>" ++ check (runes_of_ascii "MetaData a1 {
+    Foo body `{ , }`,
+    int32 int ``,
+    i32 a1 `" ++ [28040; 24687; 31867; 22411]%N ++ runes_of_ascii "`,
+    int8 msg_type ``,
+}")).
+Eval vm_compute in ("<<<M3532>>>" ++ check (runes_of_ascii "
+
+  options
+{
+	LittleEndian
+    =	true
+; }	root packet
+
+P
+
+    {repeat  char cs,u8
+x	, 
+}")).
+Eval vm_compute in ("<<<M3935>>>" ++ check (runes_of_ascii "packet A {
+    u32 crc @calculatedFrom(""\
+    ""),
+    @calculatedFrom(""\
+    "")
+    u8 y,
+}")).
+Eval vm_compute in ("<<<M2943>>>" ++ check (runes_of_ascii "packet A {
   match k as n {
-    [1, 22, ""c c"", 4, 5, ""f"", 7, 8, ""i"", 10] : B,
+    [""a"", 22, ""c c"", 4, ""e"", 66, ""g"", 8] : B
     2 : C
   },
 }")).
-Eval vm_compute in ("<<<M2215>>>" ++ check (runes_of_ascii "options
-""it's"" } options { BodyLength= u16 Header= f64 ; u128 =
-    true
-    ; } // a // b")).
-Eval vm_compute in ("<<<M654>>>" ++ check (runes_of_ascii "options {Pad = ""a	b""
-    ;
-//
-// `tick` ""quote"" 'q'
-u
-= '\x00'
-;lengthOf
-= ' '
-    ; }
-")).
-Eval vm_compute in ("<<<M3291>>>" ++ check (runes_of_ascii "MetaData float { float64 charz `
-` , } root packet chars { // c
-@rightPad ( '0' ) Foo , }")).
-Eval vm_compute in ("<<<M3502>>>" ++ check (runes_of_ascii "packet chars { } packet MetaDataX { @tag( 42
+Eval vm_compute in ("<<<M3297>>>" ++ check (runes_of_ascii "MetaData float { float64 charz `
+` , } root packet chars { @rightPad ( '0' // c
+) Foo , }")).
+Eval vm_compute in ("<<<M3508>>>" ++ check (runes_of_ascii "packet chars { } packet MetaDataX { @tag( 42 ) i16 string_
 // c
-) i16 string_ , repeat x `say ""hi""` , }")).
-Eval vm_compute in ("<<<M2287>>>" ++ check (runes_of_ascii "options
-{ } options { BodyLength= u16 Header= f64 ; u128 =
-    true
-    ; } } // a // b")).
-Eval vm_compute in ("<<<M3170>>>" ++ check (runes_of_ascii "packet A { match k as n // a
- { // b
- 1 // c
- : // d
- B // e
- , // f
- } // g
- , // h
- }")).
-Eval vm_compute in ("<<<M2283>>>" ++ check (runes_of_ascii "options
-{ } options { BodyLength= u16 Header= f64 ; u128 =
-    true
-    } ; // a // b")).
-Eval vm_compute in ("<<<M3241>>>" ++ check (runes_of_ascii "packet metadata { Logon { A `" ++ [28040; 24687; 31867; 22411]%N ++ runes_of_ascii "` , tag o , } , zchar len // c
-`// not a comment` , }")).
-Eval vm_compute in ("<<<M3429>>>" ++ check (runes_of_ascii "packet // c
-o { repeat Logon uint8x , } options { asx = zchar[ 3 ] stringy = '\x00' }")).
-Eval vm_compute in ("<<<M3461>>>" ++ check (runes_of_ascii "packet o { repeat Logon uint8x , } options { asx = zchar[ 3 ] stringy = // c
-'\x00' }")).
-Eval vm_compute in ("<<<M2279>>>" ++ check (runes_of_ascii "options
-{ } options { BodyLength= u16 Header= f64 ; u128 =
-    [
-    ; } // a // b")).
-Eval vm_compute in ("<<<M3406>>>" ++ check (runes_of_ascii "MetaData body { i64 pack `it's` , // c
-} packet stringy { int16 calculatedFrom , }")).
+, repeat x `say ""hi""` , }")).
+Eval vm_compute in ("<<<M2934>>>" ++ check (runes_of_ascii "packet A {
+  match k as n {
+    [""a"", ""bb"", 007, ""d"", ""e"", 66, ""g""] : B
+    2 : C
+  },
+}")).
+Eval vm_compute in ("<<<M4369>>>" ++ check (runes_of_ascii "
+options
+	{ 
+FixedStringPadFromLeft
+=	true  ;}root
+packet P  {
+    char[	4] z
+
+,
+	}
+
+")).
+Eval vm_compute in ("<<<M3216>>>" ++ check (runes_of_ascii "packet metadata
+// c
+{ Logon { A `" ++ [28040; 24687; 31867; 22411]%N ++ runes_of_ascii "` , tag o , } , zchar len `// not a comment` , }")).
+Eval vm_compute in ("<<<M3465>>>" ++ check (runes_of_ascii "packet o { repeat Logon uint8x , } options { asx = zchar[ 3 ] stringy = '\x00' } // c
+")).
+Eval vm_compute in ("<<<M3439>>>" ++ check (runes_of_ascii "packet o { repeat Logon uint8x // c
+, } options { asx = zchar[ 3 ] stringy = '\x00' }")).
+Eval vm_compute in ("<<<M2778>>>" ++ check (runes_of_ascii "char[] @calculatedFrom( int32 string match false MetaData @tag( i16 } repeat : uint8")).
+Eval vm_compute in ("<<<M4568>>>" ++ check (runes_of_ascii "// top
+    MetaData
+	    // c0
+  o 
+    // c1
+	{
+
+    // c2
+    } 
+        // c3
+")).
+Eval vm_compute in ("<<<M3414>>>" ++ check (runes_of_ascii "MetaData body { i64 pack `it's` , } packet stringy { // c
+int16 calculatedFrom , }")).
 Eval vm_compute in ("<<<M413>>>" ++ check (runes_of_ascii "options
     {
     Foo =  u16
@@ -2749,160 +2525,124 @@ char lengthOf = 00 As =
 false ;
     }
 ")).
-Eval vm_compute in ("<<<M768>>>" ++ check (runes_of_ascii "// " ++ [27880; 37322]%N ++ runes_of_ascii "
-options
-{ u8x  = zchar[0
-] ; len
-    =
-    ' ';
-    leftPad =false;
-} 	 ")).
-Eval vm_compute in ("<<<M566>>>" ++ check (runes_of_ascii "packet
-    o{  stringy
-@calculatedFrom( ""a	b"" // packet A { u8 x, }
-),
+Eval vm_compute in ("<<<M4308>>>" ++ check (runes_of_ascii "MetaData T {
+    char[] packetx,//
+    Packet u,
+    i32 _x,
+    uint16 asx,
 }")).
-Eval vm_compute in ("<<<M3183>>>" ++ check (runes_of_ascii "packet A {
-    match k as n {
-        1 : B // c
-        , // d
-    },
-}")).
-Eval vm_compute in ("<<<M2884>>>" ++ check (runes_of_ascii "packet A {
+Eval vm_compute in ("<<<M83>>>" ++ check (runes_of_ascii "MetaData
+Packet
+{
+    }options { Z9_ =
+char[] ; _x=
+'0';
+body
+=
+false }
+")).
+Eval vm_compute in ("<<<M2897>>>" ++ check (runes_of_ascii "packet A {
   match k as n {
-    [1, 22, 007, 4] : B,
+    [1, 22, 007, 4, 5] : B,
     2 : C
   },
 }")).
-Eval vm_compute in ("<<<M2663>>>" ++ check (runes_of_ascii "options { a = char[3]; b = zchar[0] c = char[] d = string e = u8 }")).
-Eval vm_compute in ("<<<M4368>>>" ++ check (runes_of_ascii "
-
-  options
-    // a // b
-  { f32a
-=
-'0' 
-;
-    } options {
+Eval vm_compute in ("<<<M161>>>" ++ check (runes_of_ascii "// trailing space 
+packet
+Header { // c
+repeat  char[] MetaDataX , }")).
+Eval vm_compute in ("<<<M3564>>>" ++ check (runes_of_ascii "root packet P {
+    u16 a,
+    u32 Sum @calculatedFrom(""CRC32""),
 }
 ")).
-Eval vm_compute in ("<<<M3468>>>" ++ check (runes_of_ascii "// top
-MetaData
-    // c0
-o
-    // c1
-{
-    // c2
-}
-    // c3
-")).
-Eval vm_compute in ("<<<M3539>>>" ++ check (runes_of_ascii "root packet P {
-    hdr {
-        u8 a,
-    },
-    u8 x,
-}
-")).
-Eval vm_compute in ("<<<M3381>>>" ++ check (runes_of_ascii "packet x { @rightPad ( ) repeat roots Logon // c
-`doc` , }")).
-Eval vm_compute in ("<<<M3689>>>" ++ check (runes_of_ascii "
-
-  MetaData
-    packetx{zchar[ 7]
-    u128
-
-    ,
-}
-
-")).
-Eval vm_compute in ("<<<M2270>>>" ++ check (runes_of_ascii "options
-{ } options { BodyLength= u16 Header= f64 ;")).
-Eval vm_compute in ("<<<M3760>>>" ++ check (runes_of_ascii "
-MetaData M
-    {u8
-
-    x
-
-`
-x`,T
-t`
-x`
-,
+Eval vm_compute in ("<<<M2143>>>" ++ check (runes_of_ascii "options{
+_x
+= true
+} options
+{ o	= /// triple
+false
+    ; chars")).
+Eval vm_compute in ("<<<M2290>>>" ++ check (runes_of_ascii "options
+{ } options { BodyLength= u16 Header= f64 ; u128 =
+  ")).
+Eval vm_compute in ("<<<M2859>>>" ++ check (runes_of_ascii "packet A {
+  match k as n {
+    [""a""] : B,
+    2 : C
+  },
 }")).
-Eval vm_compute in ("<<<M1146>>>" ++ check (runes_of_ascii "
-root packet  u128	{	char[ 007 ]MetaDataX
-,}")).
-Eval vm_compute in ("<<<M687>>>" ++ check (runes_of_ascii "packet leftPad { u64 Foo
-,
-// c
-// a // b
-}
-")).
-Eval vm_compute in ("<<<M2734>>>" ++ check (runes_of_ascii "@tag( @lengthOf( , @calculatedFrom( u16 as")).
-Eval vm_compute in ("<<<M3190>>>" ++ check (runes_of_ascii "root
-// c
-packet u128 { chars `it's` , }")).
-Eval vm_compute in ("<<<M1710>>>" ++ check (runes_of_ascii "options { trueish = ""`tick`"" ; string_")).
-Eval vm_compute in ("<<<M2694>>>" ++ check ([65533; 8]%N ++ runes_of_ascii "w!67" ++ [65533; 65533; 65533; 65533; 65533; 65533; 23; 65533; 28; 65533]%N ++ runes_of_ascii "k3 k" ++ [65533; 65533; 65533; 65533; 28; 65533; 65533; 65533; 1656; 65533; 16]%N ++ runes_of_ascii "J" ++ [65533]%N ++ runes_of_ascii "F" ++ [65533; 65533]%N)).
-Eval vm_compute in ("<<<M3947>>>" ++ check (runes_of_ascii "
+Eval vm_compute in ("<<<M3373>>>" ++ check (runes_of_ascii "packet x { @rightPad ( // c
+) repeat roots Logon `doc` , }")).
+Eval vm_compute in ("<<<M1441>>>" ++ check (runes_of_ascii "
+packet
+    falsey { Header@calculatedFrom(""packet""  ) ,")).
+Eval vm_compute in ("<<<M2133>>>" ++ check (runes_of_ascii "options{
+_x
+= true
+} options
+{ o	= /// triple
+false")).
+Eval vm_compute in ("<<<M4435>>>" ++ check (runes_of_ascii "MetaData
 
-  // c
-	root packet 
-pack 
-{ 
-}
-
-")).
-Eval vm_compute in ("<<<M1501>>>" ++ check (runes_of_ascii "packet
+    pack{
+    f64
+A `{ , }`
+    ,  }")).
+Eval vm_compute in ("<<<M801>>>" ++ check (runes_of_ascii "MetaData charz {
+//
 //	t
-// trailing space 
-_x")).
-Eval vm_compute in ("<<<M3147>>>" ++ check (runes_of_ascii "packet A {
- u8 x `d x`, // c x
+f32a stringy
+    ,	}
+")).
+Eval vm_compute in ("<<<M784>>>" ++ check (runes_of_ascii "
+root packet float{repeat charz falsey  , }
+")).
+Eval vm_compute in ("<<<M4334>>>" ++ check (runes_of_ascii "
+packet  // a // b
+    	int	{ }  // a // b")).
+Eval vm_compute in ("<<<M3195>>>" ++ check (runes_of_ascii "root packet u128 { // c
+chars `it's` , }")).
+Eval vm_compute in ("<<<M2607>>>" ++ check (runes_of_ascii "packet A { match k as n { 1 : B,, }, }")).
+Eval vm_compute in ("<<<M2821>>>" ++ check ([65533; 1912; 65533; 1; 65533; 21]%N ++ runes_of_ascii "TV" ++ [65533; 65533; 65533]%N ++ runes_of_ascii "'" ++ [65533]%N ++ runes_of_ascii "p_" ++ [22; 65533; 65533; 65533; 65533; 65533; 65533]%N ++ runes_of_ascii "T=%3" ++ [65533]%N ++ runes_of_ascii "ZHz" ++ [28; 22; 1]%N ++ runes_of_ascii "r" ++ [65533; 65533]%N)).
+Eval vm_compute in ("<<<M135>>>" ++ check (runes_of_ascii "MetaData pack { f64 A `{ , }` ,}
+
+")).
+Eval vm_compute in ("<<<M2759>>>" ++ check ([65533; 65533; 65533; 65533]%N ++ runes_of_ascii "Q" ++ [2; 65533; 65533; 29; 65533]%N ++ runes_of_ascii "%" ++ [30; 65533]%N ++ runes_of_ascii "f" ++ [65533; 65533]%N ++ runes_of_ascii ";lJ" ++ [65533]%N ++ runes_of_ascii "p" ++ [65533]%N ++ runes_of_ascii "," ++ [65533; 65533; 65533; 65533; 65533]%N ++ runes_of_ascii "[k-" ++ [65533; 65533]%N)).
+Eval vm_compute in ("<<<M550>>>" ++ check (runes_of_ascii "
+packet int {} packet roots
+{}")).
+Eval vm_compute in ("<<<M3082>>>" ++ check (runes_of_ascii "packet A {
+ u8 x `d" ++ [5760]%N ++ runes_of_ascii "`, // c" ++ [5760]%N ++ runes_of_ascii "
 }")).
-Eval vm_compute in ("<<<M2810>>>" ++ check (runes_of_ascii "X{aZG^\F}_#)~""*yZ&5,]=E;#],:0N")).
-Eval vm_compute in ("<<<M4038>>>" ++ check (runes_of_ascii "
-// c" ++ [8202]%N ++ runes_of_ascii "
-
-  packet
-    A {
-}
+Eval vm_compute in ("<<<M1273>>>" ++ check (runes_of_ascii "packet
+    repeatCount
+{  }
 ")).
-Eval vm_compute in ("<<<M2807>>>" ++ check (runes_of_ascii "Nx>%""+FOjL#!9!ewSS+QVDXT-b5")).
-Eval vm_compute in ("<<<M2579>>>" ++ check (runes_of_ascii "packet A { char[ x ] y, }")).
-Eval vm_compute in ("<<<M3758>>>" ++ check (runes_of_ascii "  MetaData leftPad 
-{}
-
-")).
-Eval vm_compute in ("<<<M730>>>" ++ check (runes_of_ascii "root	packet f32a { }
-")).
-Eval vm_compute in ("<<<M3479>>>" ++ check (runes_of_ascii "MetaData o { }
-// c
-")).
-Eval vm_compute in ("<<<M3470>>>" ++ check (runes_of_ascii "// c
-MetaData o { }")).
-Eval vm_compute in ("<<<M3076>>>" ++ check (runes_of_ascii "// c" ++ [133]%N ++ runes_of_ascii "
+Eval vm_compute in ("<<<M3037>>>" ++ check (runes_of_ascii "packet A {
+    u8 x `
+x`,
+}")).
+Eval vm_compute in ("<<<M2598>>>" ++ check (runes_of_ascii "packet A { B { u8 x, }, }")).
+Eval vm_compute in ("<<<M2664>>>" ++ check (runes_of_ascii "options { a = char[x]; }")).
+Eval vm_compute in ("<<<M3722>>>" ++ check (runes_of_ascii "packet matchKey {
+}//x")).
+Eval vm_compute in ("<<<M2666>>>" ++ check (runes_of_ascii "options { a = `d`; }")).
+Eval vm_compute in ("<<<M2724>>>" ++ check (runes_of_ascii "8""" ++ [65533; 65533; 65533; 24; 65533; 26]%N ++ runes_of_ascii "fLV" ++ [65533; 65533]%N ++ runes_of_ascii "J" ++ [19; 914; 65533; 27; 918]%N)).
+Eval vm_compute in ("<<<M3071>>>" ++ check (runes_of_ascii "// c" ++ [160]%N ++ runes_of_ascii "
 packet A {
 }")).
-Eval vm_compute in ("<<<M194>>>" ++ check (runes_of_ascii "root
-packet u{}
+Eval vm_compute in ("<<<M151>>>" ++ check (runes_of_ascii "packet  float{ }
 ")).
-Eval vm_compute in ("<<<M3786>>>" ++ check (runes_of_ascii "packet
-len 
-{
-}
-")).
+Eval vm_compute in ("<<<M3166>>>" ++ check (runes_of_ascii "options { // a
+ }")).
 Eval vm_compute in ("<<<M315>>>" ++ check (runes_of_ascii "MetaData As{ }")).
-Eval vm_compute in ("<<<M2653>>>" ++ check (runes_of_ascii "MetaData { }")).
-Eval vm_compute in ("<<<M4245>>>" ++ check (runes_of_ascii "
-
-  //x
- 
-")).
-Eval vm_compute in ("<<<M2426>>>" ++ check (runes_of_ascii "char[ ]")).
-Eval vm_compute in ("<<<M2691>>>" ++ check (runes_of_ascii "MLpc5K")).
-Eval vm_compute in ("<<<M3064>>>" ++ check (runes_of_ascii "// c" ++ [12288]%N)).
-Eval vm_compute in ("<<<M2517>>>" ++ check (runes_of_ascii """//""")).
-Eval vm_compute in ("<<<M2528>>>" ++ check (runes_of_ascii "007")).
-Eval vm_compute in ("<<<M2521>>>" ++ check (runes_of_ascii "`a")).
-Eval vm_compute in ("<<<M2845>>>" ++ check (runes_of_ascii "M")).
+Eval vm_compute in ("<<<M2553>>>" ++ check ([65279]%N ++ runes_of_ascii "packet A {}")).
+Eval vm_compute in ("<<<M2481>>>" ++ check (runes_of_ascii "@rightPad")).
+Eval vm_compute in ("<<<M2459>>>" ++ check (runes_of_ascii "strings")).
+Eval vm_compute in ("<<<M286>>>" ++ check (runes_of_ascii " //	t")).
+Eval vm_compute in ("<<<M3104>>>" ++ check (runes_of_ascii "// c" ++ [8239]%N)).
+Eval vm_compute in ("<<<M2547>>>" ++ check (runes_of_ascii "a
+b")).
+Eval vm_compute in ("<<<M2551>>>" ++ check (runes_of_ascii "a" ++ [160]%N ++ runes_of_ascii "b")).
+Eval vm_compute in ("<<<M2737>>>" ++ check (runes_of_ascii "*F")).
